@@ -1,17 +1,30 @@
 (** Completeness (forward direction) of the verifier core [calculateHashes] (mirror
-    [Model.Verify], repaired form [strict = true]).
+    [Model.Verify], repaired form [strict = true]), and its two corollaries on the reference forest.
 
     Pick a "valuation" [W : N -> H -> Prop] on claims (position, hash) that is closed under one
     hashing step in the forward direction: [W] of a position and [W] of its sibling give [W] of
     the parent position at [getNextHash] of the two hashes.  Feed [calculateHashes] with valid
-    targets (all in the forest, pairwise distinct, none an ancestor of another) carrying [W]-hashes
-    and with [W]-hashes of the canonical proof positions in ascending order (followed by anything).
-    Then the hashing loop succeeds; every computed position is a target or an ancestor of a target
-    and carries a [W]-hash; the reported candidates are [W]-hashes of the roots of the trees that
-    contain targets, reported with the rows of those roots in ascending order.
+    targets (all in the forest, pairwise distinct, none an ancestor of another; any order) carrying
+    [W]-hashes and with [W]-hashes of the canonical proof positions in ascending order (followed
+    by anything).  Then the hashing loop succeeds; the computed positions are exactly the targets
+    and their ancestors, each with a [W]-hash; the reported candidates are [W]-hashes of the roots
+    of the trees that contain targets, reported with the rows of those roots in ascending order
+    ([calc_complete], [calc_complete_none], [calc_complete_functional], [calc_complete_holds]).
 
     This is the dual of [Proofs.CalcSound]; the loop is analysed through [calc_step]/[calc_loop_S]
-    of [Proofs.CalcTotal] and the coordinate calculus of [Proofs.ProofPosSpec]. *)
+    of [Proofs.CalcTotal] and the coordinate calculus of [Proofs.ProofPosSpec].
+
+    Sections
+      1-2   list helpers, [mergeSortedHashAndPos], the row loop on a position of the forest;
+      3-4   the loop invariant [CInv] and the induction ([cc_loop]);
+      5-7   [calculateHashes] on an abstract closed set, on [Geometry.pp_valid] targets, the
+            position form and its variants;
+      8-9   the reference forest ([Spec.Forest]): nodes vs geometric coordinates, the set [K],
+            LINK "canonical proof positions of the reference = [ProofPositions]" ([rt_canon_pos]);
+      10    C-A [verify_complete]: the verifier accepts every canonical proof;
+      11    C-B [stump_del_refines]: [Stump.del] yields the roots of the forest after the deletion;
+      12    [verify_complete_indexes]: the indexes returned are the oracle's [exp_root_indexes];
+      13    non-vacuity by computation in the free hash algebra. *)
 From Utreexo Require Import Model.Verify Proofs.UtilsGeom Proofs.UtilsGeom2 Proofs.CalcTotal
                             Proofs.CalcSound Spec.Geometry Proofs.ProofPosSpec Spec.Term.
 From Utreexo Require Proofs.SpecBasics Proofs.RefTheory.
@@ -1493,6 +1506,41 @@ Section Final.
   Qed.
 End Final.
 
+Lemma cc_filter_perm {A} (f : A -> bool) l l' :
+  Permutation l l' -> Permutation (filter f l) (filter f l').
+Proof.
+  induction 1 as [|x l l' Hp IH|x y l|l l' l'' Hp1 IH1 Hp2 IH2].
+  - constructor.
+  - cbn [filter]. destruct (f x); [constructor|]; exact IH.
+  - cbn [filter]. destruct (f x), (f y); try apply Permutation_refl. apply perm_swap.
+  - exact (Permutation_trans IH1 IH2).
+Qed.
+
+(** the ascending lists of the statement, written with [sortN] *)
+Lemma cc_Ks_positions n T : n <= 2 ^ 63 -> pp_valid n (TreeRows n) T = true ->
+  map (g (TreeRows n)) (cc_sortC n (cc_K n T)) = sortN (map (g (TreeRows n)) (cc_K n T)) /\
+  map fst (filter (is_root_c n) (cc_sortC n (cc_K n T)))
+    = sortN (map fst (filter (is_root_c n) (cc_K n T))).
+Proof.
+  intros Hn63 Hval.
+  destruct (cc_Ks_spec n Hn63 T Hval) as [HS Hmem].
+  destruct (cc_K_NoDup_vld n Hn63 T Hval) as (Hnd & Hv & _).
+  assert (HndKs : NoDup (cc_sortC n (cc_K n T))).
+  { exact (NoDup_map_inv _ _ (cc_SSlt_NoDup _ (proj1 (pps_clt_map _ _) HS))). }
+  pose proof (NoDup_Permutation HndKs Hnd Hmem) as Hperm.
+  assert (Hs : StronglySorted N.lt (map fst (filter (is_root_c n) (cc_sortC n (cc_K n T))))).
+  { apply (cc_root_rows_sorted n Hn63); [exact HS|]. intros c Hc. apply Hv, Hmem. exact Hc. }
+  pose proof (Permutation_map fst (cc_filter_perm (is_root_c n) _ _ Hperm)) as Hperm2.
+  split; symmetry; apply pps_sortN_unique.
+  - apply pps_clt_map. exact HS.
+  - apply pps_NoDup_map_on; assumption.
+  - intros x. split; apply Permutation_in, Permutation_map;
+      [exact Hperm|apply Permutation_sym; exact Hperm].
+  - exact Hs.
+  - exact (Permutation_NoDup Hperm2 (cc_SSlt_NoDup _ Hs)).
+  - intros x. split; apply Permutation_in; [exact Hperm2|apply Permutation_sym; exact Hperm2].
+Qed.
+
 (** The statement, closed (for reference by other files). *)
 Definition calc_complete_statement : Prop :=
   forall (H : Type) (HO : ops H) (W : N -> H -> Prop) (n : N),
@@ -1522,4 +1570,1459 @@ Proof.
   exact (calc_complete_gen H HO W n Hn Hstep T hashes ws extra Hval HWT Hws).
 Qed.
 
+
+From Utreexo Require Import Spec.Forest Spec.Oracle Proofs.LayoutStruct.
+
+(** * 8. The reference forest: nodes, coordinates, roots, ancestors *)
+
+(** a coordinate of [Spec.Forest] (row in [nat]) as a coordinate of [Spec.Geometry] *)
+Definition cN (c : nat * N) : crd := (N.of_nat (fst c), snd c).
+
+Lemma cN_inj c d : cN c = cN d -> c = d.
+Proof.
+  destruct c as [r o], d as [r' o']. unfold cN. cbn [fst snd]. intros E.
+  injection E as E1 E2. f_equal; [lia|exact E2].
+Qed.
+
+Lemma cN_par r o : par (cN (r, o)) = cN (S r, o / 2).
+Proof. unfold par, cN. cbn [fst snd]. f_equal. lia. Qed.
+
+Lemma cN_sib c : sib (cN c) = cN (sib_coord c).
+Proof. reflexivity. Qed.
+
+Lemma cc_cdedup_NoDup_id l : NoDup l -> cdedup l = l.
+Proof.
+  induction 1 as [|x l Hx Hl IH]; [reflexivity|]. cbn [cdedup].
+  destruct (cmem x l) eqn:E; [exfalso; apply Hx, pps_cmem_spec; exact E|]. rewrite IH. reflexivity.
+Qed.
+
+Section RefForest.
+  Variable H : Type.
+  Variable HO : ops H.
+  Variable s : slots H.
+
+  Local Notation n := (N.of_nat (length s)).
+  Local Notation total := (TreeRows (N.of_nat (length s))).
+  Local Notation R := (rows_of (num_leaves s)).
+  Local Notation lay := (layout HO s).
+  Local Notation g := (g total).
+  Local Notation hash2 := (op_hash2 HO).
+
+  Definition ncrd (x : node H) : crd := cN (nrow x, noff x).
+
+  Lemma rf_R_total : N.of_nat R = total.
+  Proof. unfold rows_of, num_leaves. rewrite N2Nat.id. reflexivity. Qed.
+
+  Lemma rf_t63 : n <= 2 ^ 63 -> total <= 63. Proof. apply TreeRows_le_63. Qed.
+  Lemma rf_nle : n <= 2 ^ total. Proof. apply TreeRows_upper. Qed.
+
+  Lemma rf_pos_g r o : pos R r o = g (cN (r, o)).
+  Proof. rewrite LayoutStruct.pos_gpos, rf_R_total. reflexivity. Qed.
+
+  Lemma rf_npos x : npos R x = g (ncrd x).
+  Proof. unfold npos. apply rf_pos_g. Qed.
+
+  Lemma rf_node_inf x : In x lay -> inf n (ncrd x).
+  Proof.
+    intros Hx. unfold inf, ncrd, cN, in_forest. cbn [fst snd]. apply N.leb_le.
+    exact (layout_coords_valid H HO s x Hx).
+  Qed.
+
+  Lemma rf_node_vld x : In x lay -> vld total (ncrd x).
+  Proof. intros Hx. exact (pps_inf_vld n total rf_nle _ (rf_node_inf x Hx)). Qed.
+
+  Lemma rf_ncrd_inj x y : In x lay -> In y lay -> ncrd x = ncrd y -> x = y.
+  Proof.
+    intros Hx Hy E. apply cN_inj in E.
+    exact (RefTheory.layout_coord_inj H HO s x y Hx Hy E).
+  Qed.
+
+  (** the root flag of a node is the geometric root test on its coordinate *)
+  Lemma rf_root_iff x : In x lay -> (nroot x = true <-> is_root_c n (ncrd x) = true).
+  Proof.
+    intros Hx. unfold is_root_c, ncrd, cN. cbn [fst snd]. split.
+    - intros Hr. destruct (root_node_conv H HO s x Hx Hr) as (k & lo & t & Hin & Ek & Eo & _).
+      destruct (root_node H HO s k lo t Hin) as (Hbit & _ & Ediv & _).
+      rewrite Ek, Hbit, Eo, Ediv, N.eqb_refl. reflexivity.
+    - intros Hr. apply andb_true_iff in Hr. destruct Hr as [Hbit Ho]. apply N.eqb_eq in Ho.
+      destruct (roots_nth_bit H HO s (nrow x) Hbit) as (lo & t & Hin & _).
+      destruct (root_node H HO s (nrow x) lo t Hin) as (_ & _ & Ediv & y & Hy & Hry & _).
+      rewrite Ediv, <- Ho in Hy. rewrite (tnode_in H HO s x Hx) in Hy. injection Hy as ->.
+      exact Hry.
+  Qed.
+
+  Lemma rf_nonroot x : In x lay -> is_root_c n (ncrd x) = false -> nroot x = false.
+  Proof.
+    intros Hx Hr. destruct (nroot x) eqn:E; [|reflexivity].
+    apply (rf_root_iff x Hx) in E. congruence.
+  Qed.
+
+  Lemma rf_root_true x : In x lay -> nroot x = false -> is_root_c n (ncrd x) = false.
+  Proof.
+    intros Hx Hr. destruct (is_root_c n (ncrd x)) eqn:E; [|reflexivity].
+    apply (rf_root_iff x Hx) in E. congruence.
+  Qed.
+
+  Lemma rf_root_row x : In x lay -> nroot x = true -> nrow x = ntree x.
+  Proof.
+    intros Hx Hr. destruct (root_node_conv H HO s x Hx Hr) as (k & lo & t & _ & Ek & _ & _ & Et).
+    congruence.
+  Qed.
+
+  (** the parent node of a non-root node *)
+  Lemma rf_parent x : In x lay -> nroot x = false ->
+    exists p, In p lay /\ ncrd p = par (ncrd x) /\ nleaf p = false /\ ntree p = ntree x /\
+              (nrow x < ntree x)%nat.
+  Proof.
+    intros Hx Hr.
+    destruct (node_parent H HO s _ _ x (tnode_in H HO s x Hx) Hr) as (p & Hp & Hl & Ht & Hrow).
+    apply tnode_some in Hp. destruct Hp as (Hp & Er & Eo).
+    exists p. split; [exact Hp|]. split.
+    - unfold ncrd. rewrite Er, Eo. symmetry. apply cN_par.
+    - split; [exact Hl|]. split; [exact Ht|lia].
+  Qed.
+
+  (** the geometric proper ancestors of a node are inner nodes of its tree *)
+  Lemma rf_ancestors : forall fuel x, In x lay ->
+    forall a, In a (ancestors fuel n (ncrd x)) ->
+      exists y, In y lay /\ ncrd y = a /\ nleaf y = false /\ ntree y = ntree x.
+  Proof.
+    induction fuel as [|f IH]; intros x Hx a Ha; [destruct Ha|].
+    cbn [ancestors] in Ha. destruct (is_root_c n (ncrd x)) eqn:Er; [destruct Ha|].
+    destruct (rf_parent x Hx (rf_nonroot x Hx Er)) as (p & Hp & Ep & Hl & Ht & _).
+    fold (par (ncrd x)) in Ha. rewrite <- Ep in Ha. destruct Ha as [<-|Ha].
+    - exists p. repeat split; assumption.
+    - destruct (IH p Hp a Ha) as (y & Hy & Ey & Hly & Hty). exists y.
+      repeat split; try assumption. congruence.
+  Qed.
+
+  (** [path_up] of the reference = the node and its geometric ancestors *)
+  Lemma rf_path_up : forall f1 x f2, In x lay ->
+    (ntree x - nrow x <= f1)%nat -> (ntree x - nrow x <= f2)%nat ->
+    map cN (path_up f1 lay (nrow x) (noff x) (ntree x)) = ncrd x :: ancestors f2 n (ncrd x).
+  Proof.
+    induction f1 as [|f1 IH]; intros x f2 Hx H1 H2.
+    - cbn [path_up map]. f_equal.
+      destruct (nroot x) eqn:Er.
+      + destruct f2; [reflexivity|]. cbn [ancestors].
+        rewrite (proj1 (rf_root_iff x Hx) Er). reflexivity.
+      + destruct (rf_parent x Hx Er) as (_ & _ & _ & _ & _ & Hlt). lia.
+    - cbn [path_up map]. f_equal. destruct (nroot x) eqn:Er.
+      + rewrite (rf_root_row x Hx Er), Nat.ltb_irrefl.
+        destruct f2; [reflexivity|]. cbn [ancestors].
+        rewrite (proj1 (rf_root_iff x Hx) Er). reflexivity.
+      + destruct (rf_parent x Hx Er) as (p & Hp & Ep & _ & Ht & Hlt).
+        destruct (Nat.ltb_spec (nrow x) (ntree x)) as [_|Hge]; [|lia].
+        destruct f2 as [|f2]; [lia|]. cbn [ancestors].
+        rewrite (rf_root_true x Hx Er). fold (par (ncrd x)). rewrite <- Ep.
+        assert (Ecoord : (S (nrow x), noff x / 2) = (nrow p, noff p)).
+        { apply cN_inj. rewrite <- cN_par. exact (eq_sym Ep). }
+        injection Ecoord as E1 E2. rewrite E1, E2, <- Ht.
+        apply IH; [exact Hp|lia|lia].
+  Qed.
+
+  Lemma rf_tree_rows x : In x lay -> (nrow x <= ntree x)%nat /\ (ntree x <= R)%nat.
+  Proof.
+    intros Hx. destruct (layout_node_tree H HO s x Hx) as (lo & t & Hin & _ & Hle & _).
+    split; [exact Hle|].
+    destruct (root_node H HO s _ _ _ Hin) as (_ & _ & _ & rt & Hrt & _).
+    apply tnode_some in Hrt. destruct Hrt as (Hrt & Er & _).
+    pose proof (proj1 (layout_coords_rows_of H HO s rt Hrt)). lia.
+  Qed.
+
+  Lemma rf_fuel x : n <= 2 ^ 63 -> In x lay ->
+    (ntree x - nrow x <= 64)%nat /\ (ntree x - nrow x <= 70)%nat.
+  Proof.
+    intros Hn63 Hx. destruct (rf_tree_rows x Hx) as [_ Hle].
+    pose proof rf_R_total as ER. pose proof (rf_t63 Hn63). lia.
+  Qed.
+End RefForest.
+Arguments ncrd {H} x.
+
+(** * 9. Targets of the reference forest: validity, the set [K], the canonical proof *)
+
+Section RefTargets.
+  Variable H : Type.
+  Variable HO : ops H.
+  Variable s : slots H.
+  Hypothesis Hn63 : N.of_nat (length s) <= 2 ^ 63.
+
+  Local Notation n := (N.of_nat (length s)).
+  Local Notation total := (TreeRows (N.of_nat (length s))).
+  Local Notation R := (rows_of (num_leaves s)).
+  Local Notation lay := (layout HO s).
+  Local Notation g := (g total).
+
+  (** the target nodes: distinct leaves of the layout *)
+  Variable tsn : list (node H).
+  Hypothesis Hts_lay : forall x, In x tsn -> In x lay.
+  Hypothesis Hts_leaf : forall x, In x tsn -> nleaf x = true.
+  Hypothesis Hts_nd : NoDup tsn.
+
+  Local Notation T := (map ncrd tsn).
+
+  Lemma rt_T_NoDup : NoDup T.
+  Proof.
+    apply RefTheory.NoDup_map_inj_on; [exact Hts_nd|]. intros x y Hx Hy E.
+    exact (rf_ncrd_inj H HO s x y (Hts_lay x Hx) (Hts_lay y Hy) E).
+  Qed.
+
+  Lemma rt_valid : pp_valid n total T = true.
+  Proof.
+    unfold pp_valid. apply andb_true_iff. split; [apply andb_true_iff; split|].
+    - apply forallb_forall. intros c Hc. apply in_map_iff in Hc. destruct Hc as (x & <- & Hx).
+      apply andb_true_iff. split.
+      + exact (rf_node_inf H HO s x (Hts_lay x Hx)).
+      + apply N.leb_le. exact (proj1 (rf_node_vld H HO s x (Hts_lay x Hx))).
+    - apply forallb_forall. intros c Hc. apply in_map_iff in Hc. destruct Hc as (x & <- & Hx).
+      apply negb_true_iff, pps_cmem_false. intros Hin. apply in_flat_map in Hin.
+      destruct Hin as (c' & Hc' & Ha). apply in_map_iff in Hc'. destruct Hc' as (z & <- & Hz).
+      destruct (rf_ancestors H HO s 70 z (Hts_lay z Hz) _ Ha) as (y & Hy & Ey & Hly & _).
+      apply (rf_ncrd_inj H HO s y x Hy (Hts_lay x Hx)) in Ey. subst y.
+      rewrite (Hts_leaf x Hx) in Hly. discriminate.
+    - rewrite (cc_cdedup_NoDup_id _ rt_T_NoDup). apply Nat.eqb_refl.
+  Qed.
+
+  (** [K]: the reference's [known_set], coordinate by coordinate *)
+  Lemma rt_K c : In c (cc_K n T) <-> exists d, In d (known_set lay tsn) /\ c = cN d.
+  Proof.
+    assert (Hpath : forall x, In x tsn ->
+      map cN (path_up 64 lay (nrow x) (noff x) (ntree x)) = ncrd x :: ancestors 70 n (ncrd x)).
+    { intros x Hx. destruct (rf_fuel H HO s x Hn63 (Hts_lay x Hx)) as [F1 F2].
+      exact (rf_path_up H HO s 64 x 70 (Hts_lay x Hx) F1 F2). }
+    unfold cc_K, cc_anc. rewrite in_app_iff, pps_cdedup_In, in_flat_map. split.
+    - intros [Hc|(c' & Hc' & Ha)].
+      + apply in_map_iff in Hc. destruct Hc as (x & <- & Hx).
+        exists (nrow x, noff x). split; [apply RefTheory.known_set_target; exact Hx|reflexivity].
+      + apply in_map_iff in Hc'. destruct Hc' as (x & <- & Hx).
+        assert (Hin : In c (map cN (path_up 64 lay (nrow x) (noff x) (ntree x)))).
+        { rewrite (Hpath x Hx). apply in_cons. exact Ha. }
+        apply in_map_iff in Hin. destruct Hin as (d & <- & Hd). exists d. split; [|reflexivity].
+        apply RefTheory.known_set_In. exists x. split; assumption.
+    - intros (d & Hd & ->). apply RefTheory.known_set_In in Hd. destruct Hd as (x & Hx & Hd).
+      assert (Hin : In (cN d) (ncrd x :: ancestors 70 n (ncrd x))).
+      { rewrite <- (Hpath x Hx). apply in_map. exact Hd. }
+      apply in_inv in Hin. destruct Hin as [E|Hin].
+      + left. rewrite <- E. apply in_map. exact Hx.
+      + right. exists (ncrd x). split; [apply in_map; exact Hx|exact Hin].
+  Qed.
+
+  (** every member of [K] is a node of the layout *)
+  Lemma rt_K_node c : In c (cc_K n T) -> exists y, In y lay /\ ncrd y = c.
+  Proof.
+    unfold cc_K, cc_anc. rewrite in_app_iff, pps_cdedup_In, in_flat_map.
+    intros [Hc|(c' & Hc' & Ha)].
+    - apply in_map_iff in Hc. destruct Hc as (x & <- & Hx). exists x.
+      split; [exact (Hts_lay x Hx)|reflexivity].
+    - apply in_map_iff in Hc'. destruct Hc' as (x & <- & Hx).
+      destruct (rf_ancestors H HO s 70 x (Hts_lay x Hx) c Ha) as (y & Hy & Ey & _).
+      exists y. split; assumption.
+  Qed.
+
+  Lemma rt_is_root_coord d : In d (known_set lay tsn) ->
+    is_root_coord lay d = is_root_c n (cN d).
+  Proof.
+    intros Hd. destruct (rt_K_node (cN d)) as (y & Hy & Ey); [apply rt_K; exists d; split; [exact Hd|reflexivity]|].
+    apply cN_inj in Ey. unfold is_root_coord. rewrite <- Ey. cbn [fst snd].
+    change (find_coord lay (nrow y) (noff y)) with (tnode HO s (nrow y) (noff y)).
+    rewrite (tnode_in H HO s y Hy).
+    pose proof (rf_root_iff H HO s y Hy) as Hiff. unfold ncrd in Hiff.
+    destruct (nroot y), (is_root_c n (cN (nrow y, noff y))); try reflexivity.
+    - symmetry. apply Hiff. reflexivity.
+    - apply Hiff. reflexivity.
+  Qed.
+
+  (** the proof coordinates of the reference = the siblings of [K] outside [K] *)
+  Lemma rt_proof_coords sc :
+    (exists c, In c (cc_K n T) /\ is_root_c n c = false /\ ~ In (sib c) (cc_K n T) /\ sc = sib c)
+    <-> exists d, In d (proof_coords lay tsn) /\ sc = cN d.
+  Proof.
+    split.
+    - intros (c & Hc & Hr & Hns & ->). apply rt_K in Hc. destruct Hc as (d & Hd & ->).
+      exists (sib_coord d). split; [|reflexivity]. apply RefTheory.proof_coords_In.
+      exists d. split; [exact Hd|]. split; [rewrite (rt_is_root_coord d Hd); exact Hr|].
+      split; [|reflexivity]. intros Hin. apply Hns. apply rt_K. exists (sib_coord d).
+      split; [exact Hin|reflexivity].
+    - intros (d' & Hd' & ->). apply RefTheory.proof_coords_In in Hd'.
+      destruct Hd' as (d & Hd & Hr & Hns & ->). exists (cN d).
+      split; [apply rt_K; exists d; split; [exact Hd|reflexivity]|].
+      split; [rewrite <- (rt_is_root_coord d Hd); exact Hr|]. split; [|reflexivity].
+      intros Hin. apply rt_K in Hin. destruct Hin as (d2 & Hd2 & E).
+      rewrite cN_sib in E. apply cN_inj in E. apply Hns. rewrite E. exact Hd2.
+  Qed.
+
+  (** LINK: the reference's canonical proof positions are the mirror's [ProofPositions] *)
+  Lemma rt_canon_pos :
+    canon_proof_pos R lay tsn = fst (ProofPositions (sortN (map g T)) n total).
+  Proof.
+    destruct (cc_pp_positions n Hn63 T rt_valid) as (bs & -> & Hbs & Hmem).
+    apply pps_SSlt_ext; [|exact Hbs|].
+    - unfold canon_proof_pos, sort_coords. apply cc_sortK_SSlt. rewrite map_map. cbn [fst].
+      apply RefTheory.NoDup_map_inj_on; [apply RefTheory.proof_coords_NoDup|].
+      exact (RefTheory.proof_coords_pos_inj H HO s tsn Hts_lay).
+    - intros p. rewrite RefTheory.canon_proof_pos_In, in_map_iff. split.
+      + intros (c & Hc & ->). exists (cN c). split; [symmetry; apply (rf_pos_g H s)|].
+        apply Hmem. apply rt_proof_coords. exists c. split; [exact Hc|reflexivity].
+      + intros (sc & <- & Hsc). apply Hmem, rt_proof_coords in Hsc. destruct Hsc as (d & Hd & ->).
+        exists d. split; [exact Hd|]. symmetry. apply (rf_pos_g H s).
+  Qed.
+End RefTargets.
+
+(** * 10. C-A: the verifier accepts every canonical proof of the reference forest *)
+
+Lemma cc_Forall2_maps {A B C} (P : B -> C -> Prop) (f : A -> B) (h : A -> C) l :
+  Forall (fun e => P (f e) (h e)) l -> Forall2 P (map f l) (map h l).
+Proof. induction 1 as [|e l He Hl IH]; cbn [map]; constructor; assumption. Qed.
+
+Section StrictMatchAll.
+  Variable H : Type.
+  Variable HO : ops H.
+
+  (** when every candidate equals the stored root of its row, all of them are matched *)
+  Lemma cc_strict_match_all n roots : forall rows cands,
+    Forall2 (fun r c => exists x, nth_error roots (rootIndexForRow n r) = Some x /\
+                                  op_eqb HO x c = true) rows cands ->
+    strict_match HO n roots cands rows = map (rootIndexForRow n) rows.
+  Proof.
+    intros rows cands HF. induction HF as [|r c rows cands (x & Ex & Eq) HF IH]; [reflexivity|].
+    cbn [strict_match map]. rewrite Ex, Eq, IH. reflexivity.
+  Qed.
+
+  Lemma cc_rootIndexForRow n r : r <= 63 ->
+    rootIndexForRow n r = N.to_nat (popcount (N.shiftr n (r + 1))).
+  Proof.
+    intros Hr. unfold rootIndexForRow, numRoots, shr. rewrite add8_small by lia. reflexivity.
+  Qed.
+End StrictMatchAll.
+
+Section VerifyComplete.
+  Variable H : Type.
+  Variable HO : ops H.
+  Hypothesis HOK : ops_ok HO.
+  Hypothesis hash_nz : forall a b, NZ HO (op_hash2 HO a b).
+  Variable s : slots H.
+  Hypothesis Hlive_nz : forall h, In (Some h) s -> NZ HO h.
+  Hypothesis Hn63 : N.of_nat (length s) <= 2 ^ 63.
+
+  Local Notation n := (N.of_nat (length s)).
+  Local Notation total := (TreeRows (N.of_nat (length s))).
+  Local Notation R := (rows_of (num_leaves s)).
+  Local Notation lay := (layout HO s).
+  Local Notation g := (g total).
+  Local Notation hash2 := (op_hash2 HO).
+  Local Notation nz := (NZ HO).
+
+  (** the valuation: the hash of the node at the position, never the empty hash *)
+  Definition Wv (p : N) (h : H) : Prop :=
+    exists x, In x lay /\ p = g (ncrd x) /\ nhash x = h /\ nz h.
+
+  (** every node except an empty root has a non-empty hash *)
+  Lemma vc_nonroot_nz x : In x lay -> nroot x = false -> nz (nhash x).
+  Proof.
+    intros Hx Hr.
+    destruct (node_cases H HO s _ _ x (tnode_in H HO s x Hx))
+      as [r' xl xr _ _ _ _ Hh _ _ _ _|Hlf Hin _|Hroot _ _ _ _ _].
+    - rewrite Hh. apply hash_nz.
+    - apply Hlive_nz. exact Hin.
+    - congruence.
+  Qed.
+
+  Lemma vc_leaf_nz x : In x lay -> nleaf x = true -> nz (nhash x).
+  Proof. intros Hx Hl. apply Hlive_nz. exact (layout_leaf_live H HO s x Hx Hl). Qed.
+
+  Lemma vc_Wv_node x h : In x lay -> Wv (g (ncrd x)) h -> nhash x = h /\ nz h.
+  Proof.
+    intros Hx (y & Hy & Eg & Eh & Hnz).
+    apply pps_g_inj in Eg; [|exact (rf_node_vld H HO s x Hx)|exact (rf_node_vld H HO s y Hy)].
+    apply (rf_ncrd_inj H HO s x y Hx Hy) in Eg. subst y. split; assumption.
+  Qed.
+
+  (** FORWARD STEP for the reference forest *)
+  Lemma vc_step c h hs : inf n c -> is_root_c n c = false ->
+    Wv (g c) h -> Wv (g (sib c)) hs -> Wv (g (par c)) (getNextHash HO (g c) h hs).
+  Proof.
+    intros Hinf Hroot (x & Hx & Eg & Eh & Hnz) Hsib.
+    pose proof (rf_nle H s) as Hnle. pose proof (rf_t63 H s Hn63) as Ht63.
+    apply pps_g_inj in Eg; [|exact (pps_inf_vld n total Hnle c Hinf)|exact (rf_node_vld H HO s x Hx)].
+    subst c. pose proof (rf_nonroot H HO s x Hx Hroot) as Hnr.
+    destruct (node_sibling H HO s _ _ x (tnode_in H HO s x Hx) Hnr)
+      as (p & sb & Hp & Hsb & _ & _ & _ & Hsbr & Hph).
+    apply tnode_some in Hp. destruct Hp as (Hp & Epr & Epo).
+    apply tnode_some in Hsb. destruct Hsb as (Hsb & Esr & Eso).
+    assert (Esb : ncrd sb = sib (ncrd x)).
+    { unfold ncrd, sib, cN. cbn [fst snd]. rewrite Esr, Eso. reflexivity. }
+    rewrite <- Esb in Hsib. destruct (vc_Wv_node sb hs Hsb Hsib) as [Ehs Hnzs].
+    rewrite cs_getNextHash_nz by assumption.
+    rewrite (cc_isLeft total (ncrd x) (proj1 (rf_node_vld H HO s x Hx))).
+    exists p. split; [exact Hp|]. split; [|split].
+    - f_equal. unfold ncrd. rewrite Epr, Epo. apply cN_par.
+    - rewrite Hph, Eh, Ehs. unfold ncrd, cN. cbn [snd]. reflexivity.
+    - destruct (N.even (snd (ncrd x))); apply hash_nz.
+  Qed.
+
+  (** ** the candidates of the involved roots are the stored roots *)
+  Lemma vc_root_match r c : N.testbit n r = true ->
+    Wv (rootPosition n r total) c ->
+    exists x, nth_error (roots HO s) (rootIndexForRow n r) = Some x /\ op_eqb HO x c = true.
+  Proof.
+    intros Hbit (y & Hy & Eg & Eh & _).
+    pose proof (rf_nle H s) as Hnle. pose proof (rf_t63 H s Hn63) as Ht63.
+    destruct (root_coord_valid n r total Hnle Hbit) as [Hr Hov].
+    rewrite rootPosition_gpos in Eg by assumption.
+    set (k := N.to_nat r).
+    assert (Ek : N.of_nat k = r) by (unfold k; apply N2Nat.id).
+    destruct (roots_nth_bit H HO s k) as (lo & t & Hin & Hroot); [rewrite Ek; exact Hbit|].
+    destruct (root_node H HO s k lo t Hin) as (_ & _ & Ediv & xn & Hxn & _ & Hh & _).
+    rewrite Ek in Ediv, Hroot, Hxn. rewrite Ediv in Hxn.
+    apply tnode_some in Hxn. destruct Hxn as (Hxn & Exr & Exo).
+    assert (Ecrd : ncrd xn = (r, 2 * (n / 2 ^ (r + 1)))).
+    { unfold ncrd, cN. cbn [fst snd]. rewrite Exr, Exo, Ek. reflexivity. }
+    change (UtilsGeom.gpos total r (2 * (n / 2 ^ (r + 1)))) with (g (r, 2 * (n / 2 ^ (r + 1)))) in Eg.
+    rewrite <- Ecrd in Eg.
+    apply pps_g_inj in Eg; [|exact (rf_node_vld H HO s xn Hxn)|exact (rf_node_vld H HO s y Hy)].
+    apply (rf_ncrd_inj H HO s xn y Hxn Hy) in Eg. subst y.
+    exists (root_hash HO t). rewrite cc_rootIndexForRow by lia. split; [exact Hroot|].
+    apply HOK. rewrite <- Hh. exact Eh.
+  Qed.
+
+  (** the root of the tree of a node is among the node and its geometric ancestors *)
+  Lemma vc_root_in_path : forall fuel x, In x lay -> (ntree x - nrow x <= fuel)%nat ->
+    exists q, In q (ncrd x :: ancestors fuel n (ncrd x)) /\ is_root_c n q = true /\
+              fst q = N.of_nat (ntree x).
+  Proof.
+    induction fuel as [|f IH]; intros x Hx Hf.
+    - destruct (nroot x) eqn:Er.
+      + exists (ncrd x). split; [apply in_eq|]. split; [exact (proj1 (rf_root_iff H HO s x Hx) Er)|].
+        unfold ncrd, cN. cbn [fst]. rewrite (rf_root_row H HO s x Hx Er). reflexivity.
+      + destruct (rf_parent H HO s x Hx Er) as (_ & _ & _ & _ & _ & Hlt). lia.
+    - destruct (nroot x) eqn:Er.
+      + exists (ncrd x). split; [apply in_eq|]. split; [exact (proj1 (rf_root_iff H HO s x Hx) Er)|].
+        unfold ncrd, cN. cbn [fst]. rewrite (rf_root_row H HO s x Hx Er). reflexivity.
+      + destruct (rf_parent H HO s x Hx Er) as (p & Hp & Ep & _ & Ht & Hlt).
+        destruct (IH p Hp) as (q & Hq & Hqr & Hqf).
+        { assert (Erow : nrow p = S (nrow x)).
+          { apply (f_equal fst) in Ep. unfold ncrd, par, cN in Ep. cbn [fst] in Ep. lia. }
+          lia. }
+        exists q. split; [|split; [exact Hqr|rewrite Hqf, Ht; reflexivity]].
+        apply in_cons. cbn [ancestors]. rewrite (rf_root_true H HO s x Hx Er).
+        fold (par (ncrd x)). rewrite <- Ep. exact Hq.
+  Qed.
+
+  (** ** an honest proof *)
+  Variable tsn : list (node H).
+  Hypothesis Hts_lay : forall x, In x tsn -> In x lay.
+  Hypothesis Hts_leaf : forall x, In x tsn -> nleaf x = true.
+  Hypothesis Hts_nd : NoDup tsn.
+
+  Local Notation T := (map ncrd tsn).
+  Local Notation Ks := (cc_sortC n (cc_K n T)).
+  Local Notation rows := (map fst (filter (is_root_c n) Ks)).
+
+  (** the reported rows are the rows of the trees that hold the targets *)
+  Lemma vc_rows r : In r rows <-> exists x, In x tsn /\ r = N.of_nat (ntree x).
+  Proof.
+    pose proof (rt_valid H HO s tsn Hts_lay Hts_leaf Hts_nd) as Hval.
+    destruct (cc_Ks_spec n Hn63 T Hval) as [_ HKs_mem].
+    rewrite in_map_iff. split.
+    - intros (q & <- & Hq). apply filter_In in Hq. destruct Hq as [Hq Hqr].
+      apply HKs_mem in Hq. unfold cc_K, cc_anc in Hq.
+      rewrite in_app_iff, pps_cdedup_In, in_flat_map in Hq. destruct Hq as [Hq|(c' & Hc' & Ha)].
+      + apply in_map_iff in Hq. destruct Hq as (x & <- & Hx). exists x. split; [exact Hx|].
+        pose proof (proj2 (rf_root_iff H HO s x (Hts_lay x Hx)) Hqr) as Er.
+        unfold ncrd, cN. cbn [fst]. rewrite (rf_root_row H HO s x (Hts_lay x Hx) Er). reflexivity.
+      + apply in_map_iff in Hc'. destruct Hc' as (x & <- & Hx). exists x. split; [exact Hx|].
+        destruct (rf_ancestors H HO s 70 x (Hts_lay x Hx) q Ha) as (y & Hy & Ey & _ & Hty).
+        subst q. pose proof (proj2 (rf_root_iff H HO s y Hy) Hqr) as Er.
+        unfold ncrd, cN. cbn [fst]. rewrite (rf_root_row H HO s y Hy Er), Hty. reflexivity.
+    - intros (x & Hx & ->).
+      destruct (rf_fuel H HO s x Hn63 (Hts_lay x Hx)) as [_ F2].
+      destruct (vc_root_in_path 70 x (Hts_lay x Hx) F2) as (q & Hq & Hqr & Hqf).
+      exists q. split; [exact Hqf|]. apply filter_In. split; [|exact Hqr].
+      apply HKs_mem. unfold cc_K, cc_anc. rewrite in_app_iff, pps_cdedup_In, in_flat_map.
+      apply in_inv in Hq. destruct Hq as [<-|Hq]; [left; apply in_map; exact Hx|].
+      right. exists (ncrd x). split; [apply in_map; exact Hx|exact Hq].
+  Qed.
+
+  Lemma vc_targets_W : Forall2 (fun c h => Wv (g c) h) T (map (@nhash H) tsn).
+  Proof.
+    apply cc_Forall2_maps. apply Forall_forall. intros x Hx. exists x.
+    split; [exact (Hts_lay x Hx)|]. split; [reflexivity|]. split; [reflexivity|].
+    exact (vc_leaf_nz x (Hts_lay x Hx) (Hts_leaf x Hx)).
+  Qed.
+
+  Lemma vc_proof_W :
+    Forall2 Wv (fst (ProofPositions (sortN (map g T)) n total)) (canon_proof_hashes HO R lay tsn).
+  Proof.
+    rewrite <- (rt_canon_pos H HO s Hn63 tsn Hts_lay Hts_leaf Hts_nd).
+    unfold canon_proof_pos, canon_proof_hashes. apply cc_Forall2_maps. apply Forall_forall.
+    intros e He. apply RefTheory.sort_coords_In in He. destruct He as (c & Hc & ->). cbn [fst snd].
+    apply RefTheory.proof_coords_In in Hc. destruct Hc as (d & Hd & Hr & _ & ->).
+    destruct (rt_K_node H HO s tsn Hts_lay (cN d)) as (y & Hy & Ey).
+    { apply (rt_K H HO s Hn63 tsn Hts_lay). exists d. split; [exact Hd|reflexivity]. }
+    rewrite (rt_is_root_coord H HO s Hn63 tsn Hts_lay d Hd), <- Ey in Hr.
+    pose proof (rf_nonroot H HO s y Hy Hr) as Hnr.
+    destruct (node_sibling H HO s _ _ y (tnode_in H HO s y Hy) Hnr)
+      as (p & sb & _ & Hsb & _ & _ & _ & Hsbr & _).
+    apply cN_inj in Ey. subst d. unfold sib_coord. cbn [fst snd].
+    change (find_coord lay (nrow y) (N.lxor (noff y) 1)) with (tnode HO s (nrow y) (N.lxor (noff y) 1)).
+    rewrite Hsb. apply tnode_some in Hsb. destruct Hsb as (Hsb & Esr & Eso).
+    exists sb. split; [exact Hsb|]. split; [|split; [reflexivity|exact (vc_nonroot_nz sb Hsb Hsbr)]].
+    rewrite (rf_pos_g H s). unfold ncrd. rewrite Esr, Eso. reflexivity.
+  Qed.
+
+  Lemma vc_Wv_nz l m : Forall2 Wv l m -> Forall nz m.
+  Proof.
+    induction 1 as [|p h l m (x & _ & _ & _ & Hnz) _ IH]; constructor; assumption.
+  Qed.
+
+  (** C-A, on the target nodes *)
+  Theorem verify_complete_nodes :
+    Verify HO true (the_stump (mk_ctx HO s)) (map (@nhash H) tsn) (map (npos R) tsn)
+           (canon_proof_hashes HO R lay tsn)
+    = Ok (map (rootIndexForRow n) rows) /\ SSlt rows.
+  Proof.
+    pose proof (rt_valid H HO s tsn Hts_lay Hts_leaf Hts_nd) as Hval.
+    destruct (cc_valid_facts n Hn63 T Hval) as (HK1 & _).
+    destruct (cc_Ks_spec n Hn63 T Hval) as [_ HKs_mem].
+    assert (Ets : map (npos R) tsn = map g T).
+    { rewrite map_map. apply map_ext. intros x. apply (rf_npos H s). }
+    set (hs := map (@nhash H) tsn). set (pf := canon_proof_hashes HO R lay tsn).
+    destruct (calc_complete_c H HO Wv n Hn63 T (Some hs) pf [] Hval)
+      as (inter & cands & Ecalc & Hsorted & Hcands & _ & _).
+    { intros c h h' Hc Hr. exact (vc_step c h h' (HK1 c Hc) Hr). }
+    { exact vc_targets_W. }
+    { exact vc_proof_W. }
+    rewrite app_nil_r in Ecalc. split; [|exact Hsorted].
+    rewrite Ets.
+    unfold Verify, the_stump, mk_ctx. cbn [st_n st_roots croots cn]. unfold num_leaves.
+    unfold hs at 1. rewrite !map_length, Nat.eqb_refl. cbn [negb andb].
+    assert (Hhs_nz : has_empty HO hs = false).
+    { apply cs_has_empty_false.
+      exact (vc_Wv_nz _ _ (proj1 (cc_Forall2_map_l g Wv T hs) vc_targets_W)). }
+    assert (Hpf_nz : has_empty HO pf = false).
+    { apply cs_has_empty_false. exact (vc_Wv_nz _ _ vc_proof_W). }
+    fold hs. rewrite Hhs_nz, Hpf_nz. cbn [orb]. rewrite Ecalc.
+    assert (Hmatch : strict_match HO n (roots HO s) cands rows = map (rootIndexForRow n) rows).
+    { apply cc_strict_match_all.
+      assert (Hbits : Forall (fun r => N.testbit n r = true) rows).
+      { apply Forall_forall. intros r Hr. apply in_map_iff in Hr. destruct Hr as (q & <- & Hq).
+        apply filter_In in Hq. destruct Hq as [_ Hq]. unfold is_root_c in Hq.
+        apply andb_true_iff in Hq. exact (proj1 Hq). }
+      assert (Hgen : forall rws cs, Forall (fun r => N.testbit n r = true) rws ->
+                Forall2 (fun r c => Wv (rootPosition n r total) c) rws cs ->
+                Forall2 (fun r c => exists x, nth_error (roots HO s) (rootIndexForRow n r) = Some x /\
+                                              op_eqb HO x c = true) rws cs).
+      { intros rws cs Hb HF. induction HF as [|r c l m Hrc HF IH]; [constructor|].
+        inversion Hb as [|r' l' Hb1 Hbs]; subst. constructor; [|exact (IH Hbs)].
+        exact (vc_root_match r c Hb1 Hrc). }
+      exact (Hgen _ _ Hbits Hcands). }
+    rewrite Hmatch, map_length, (cs_Forall2_length _ _ _ Hcands), Nat.eqb_refl. reflexivity.
+  Qed.
+End VerifyComplete.
+
+(** the target nodes of a request: what [find_leaves] returns *)
+Lemma cc_find_leaves_facts {H} (HO : ops H) (s : slots H) hs tsn : ops_ok HO ->
+  NoDup hs -> find_leaves HO (layout HO s) hs = Some tsn ->
+  (forall x, In x tsn -> In x (layout HO s)) /\ (forall x, In x tsn -> nleaf x = true) /\
+  NoDup tsn /\ map (@nhash H) tsn = hs /\
+  (forall x, In x tsn <-> exists h, In h hs /\ find_leaf HO (layout HO s) h = Some x).
+Proof.
+  intros HOK Hnd Efl.
+  pose proof (RefTheory.find_leaves_In H HO _ _ _ Efl) as Hin.
+  assert (Hx : forall x, In x tsn -> In x (layout HO s) /\ nleaf x = true).
+  { intros x Hx. apply Hin in Hx. destruct Hx as (h & _ & Ef).
+    destruct (find_leaf_some H HO _ h x HOK Ef) as (H1 & H2 & _). split; assumption. }
+  split; [intros x Hx'; exact (proj1 (Hx x Hx'))|]. split; [intros x Hx'; exact (proj2 (Hx x Hx'))|].
+  split; [exact (RefTheory.find_leaves_NoDup H HO HOK _ _ _ Hnd Efl)|].
+  split; [exact (RefTheory.find_leaves_hashes H HO HOK _ _ _ Efl)|exact Hin].
+Qed.
+
+(** C-A.  The repaired verifier accepts the canonical proof of every set of distinct live leaves,
+    whatever the order of the request, and reports the roots of the trees that hold them:
+    [rows] lists the rows of those trees in ascending order. *)
+Theorem verify_complete {H} (HO : ops H) (s : slots H) (hs : list H) (ts : list N) (pf : list H) :
+  ops_ok HO ->
+  (forall a b, NZ HO (op_hash2 HO a b)) ->
+  (forall h, In (Some h) s -> NZ HO h) ->
+  N.of_nat (length s) <= 2 ^ 63 ->
+  NoDup hs ->
+  exp_prove HO (mk_ctx HO s) hs = Some (ts, pf) ->
+  exists rows,
+    Verify HO true (the_stump (mk_ctx HO s)) hs ts pf
+      = Ok (map (rootIndexForRow (N.of_nat (length s))) rows) /\
+    StronglySorted N.lt rows /\
+    (forall r, In r rows <->
+       exists h x, In h hs /\ find_leaf HO (layout HO s) h = Some x /\ r = N.of_nat (ntree x)).
+Proof.
+  intros HOK Hnz Hlive Hn63 Hnd Ep. unfold exp_prove, mk_ctx in Ep. cbn [clay crows] in Ep.
+  destruct (find_leaves HO (layout HO s) hs) as [tsn|] eqn:Efl; [|discriminate].
+  injection Ep as <- <-.
+  destruct (cc_find_leaves_facts HO s hs tsn HOK Hnd Efl) as (Hlay & Hleaf & Hndt & Ehs & Hin).
+  destruct (verify_complete_nodes H HO HOK Hnz s Hlive Hn63 tsn Hlay Hleaf Hndt) as [Ev Hs].
+  rewrite Ehs in Ev. eexists. split; [exact Ev|]. split; [exact Hs|].
+  intros r. rewrite (vc_rows H HO s Hn63 tsn Hlay Hleaf Hndt r). split.
+  - intros (x & Hx & ->). apply Hin in Hx. destruct Hx as (h & Hh & Ef).
+    exists h, x. repeat split; assumption.
+  - intros (h & x & Hh & Ef & ->). exists x. split; [|reflexivity].
+    apply Hin. exists h. split; assumption.
+Qed.
+
+(** * 11. C-B: [Stump.del] computes the roots of the forest after the deletion *)
+
+Lemma cc_nth_error_ext {A} : forall (l l' : list A),
+  (forall i, nth_error l i = nth_error l' i) -> l = l'.
+Proof.
+  induction l as [|a l IH]; intros l' Hext.
+  - destruct l' as [|b l']; [reflexivity|]. specialize (Hext O). discriminate.
+  - destruct l' as [|b l']; [specialize (Hext O); discriminate|].
+    pose proof (Hext O) as H0. cbn [nth_error] in H0. injection H0 as ->. f_equal.
+    apply IH. intros i. exact (Hext (S i)).
+Qed.
+
+Section WriteRoots.
+  Variable H : Type.
+
+  Lemma cc_set_nth_spec (v : H) : forall i l, (i < length l)%nat ->
+    exists l', set_nth i v l = Some l' /\ length l' = length l /\
+      nth_error l' i = Some v /\ (forall j, j <> i -> nth_error l' j = nth_error l j).
+  Proof.
+    induction i as [|i IH]; intros l Hi; destruct l as [|y l]; cbn [length] in Hi; try lia.
+    - exists (v :: l). split; [reflexivity|]. split; [reflexivity|]. split; [reflexivity|].
+      intros j Hj. destruct j as [|j]; [congruence|reflexivity].
+    - destruct (IH l ltac:(lia)) as (l' & E & El & Ei & Hother). exists (y :: l').
+      cbn [set_nth]. rewrite E. split; [reflexivity|]. split; [cbn [length]; rewrite El; reflexivity|].
+      split; [exact Ei|]. intros j Hj. destruct j as [|j]; [reflexivity|].
+      cbn [nth_error]. apply Hother. lia.
+  Qed.
+
+  Lemma cc_write_roots_spec : forall (idxs : list nat) (vals roots : list H),
+    NoDup idxs -> length idxs = length vals -> (forall i, In i idxs -> (i < length roots)%nat) ->
+    exists r', write_roots roots idxs vals = Some r' /\ length r' = length roots /\
+      (forall j i v, nth_error idxs j = Some i -> nth_error vals j = Some v ->
+                     nth_error r' i = Some v) /\
+      (forall i, ~ In i idxs -> nth_error r' i = nth_error roots i).
+  Proof.
+    induction idxs as [|i idxs IH]; intros vals roots Hnd Hlen Hlt.
+    - destruct vals; [|discriminate]. exists roots. split; [reflexivity|]. split; [reflexivity|].
+      split; [intros j i v Hj; destruct j; discriminate|reflexivity].
+    - destruct vals as [|v vals]; [discriminate|]. cbn [length] in Hlen.
+      inversion Hnd as [|i' l' Hnin Hnd']; subst.
+      destruct (cc_set_nth_spec v i roots (Hlt i (or_introl eq_refl))) as (r1 & E1 & El1 & Ei1 & Ho1).
+      destruct (IH vals r1 Hnd' ltac:(lia)) as (r' & E & El & Hset & Hother).
+      { intros k Hk. rewrite El1. apply Hlt. right. exact Hk. }
+      exists r'. cbn [write_roots]. rewrite E1. split; [exact E|]. split; [congruence|]. split.
+      + intros j k w Hj Hw. destruct j as [|j]; cbn [nth_error] in Hj, Hw.
+        * injection Hj as <-. injection Hw as <-. rewrite (Hother i Hnin). exact Ei1.
+        * exact (Hset j k w Hj Hw).
+      + intros k Hk. rewrite Hother by (intros Hin; apply Hk; right; exact Hin).
+        apply Ho1. intros ->. apply Hk. left. reflexivity.
+  Qed.
+End WriteRoots.
+
+(** the rows of the trees of the reference forest strictly descend *)
+Section ForestRows.
+  Variable H : Type.
+  Variable HO : ops H.
+  Local Notation row := (fun e : nat * N * option (ctree H) => fst (fst e)).
+
+  Lemma cc_trees_rows_desc : forall k lo (s : slots H),
+    StronglySorted (fun a b => (b < a)%nat) (map row (trees HO k lo s)) /\
+    (forall r, In r (map row (trees HO k lo s)) -> (r <= k)%nat).
+  Proof.
+    induction k as [|k IH]; intros lo s.
+    - cbn [trees]. destruct (Nat.leb (2 ^ 0) (length s)); cbn [map].
+      + split; [repeat constructor|]. intros r [<-|[]]. cbn [fst]. lia.
+      + split; [constructor|]. intros r [].
+    - cbn [trees].
+      set (has := Nat.leb (2 ^ S k) (length s)).
+      set (rest := if has then skipn (2 ^ S k) s else s).
+      set (lo' := if has then lo + N.of_nat (2 ^ S k) else lo).
+      destruct (IH lo' rest) as [IH1 IH2].
+      destruct has; cbn [app map fst].
+      + split.
+        * constructor; [exact IH1|]. apply Forall_forall. intros r Hr. specialize (IH2 r Hr). lia.
+        * intros r [<-|Hr]; [lia|]. specialize (IH2 r Hr). lia.
+      + split; [exact IH1|]. intros r Hr. specialize (IH2 r Hr). lia.
+  Qed.
+
+  Lemma cc_forest_rows_NoDup (s : slots H) : NoDup (map row (forest HO s)).
+  Proof.
+    unfold forest. destruct (cc_trees_rows_desc (Nat.log2 (length s)) 0 s) as [HS _].
+    induction HS as [|a l HS IH Ha]; constructor; [|exact IH].
+    intros Hin. rewrite Forall_forall in Ha. specialize (Ha a Hin). lia.
+  Qed.
+
+  (** the index of the tree of row [k] *)
+  Definition cc_tidx (s : slots H) (k : nat) : nat :=
+    N.to_nat (popcount (N.shiftr (N.of_nat (length s)) (N.of_nat k + 1))).
+
+  Lemma cc_tidx_p2 s k :
+    cc_tidx s k = N.to_nat (popcount (N.of_nat (length s) / p2 (S k))).
+  Proof. unfold cc_tidx. rewrite N.shiftr_div_pow2, p2_S'. reflexivity. Qed.
+
+  Lemma cc_forest_index (s : slots H) i k lo t :
+    nth_error (forest HO s) i = Some (k, lo, t) -> i = cc_tidx s k.
+  Proof.
+    intros Ei. assert (Hbit : N.testbit (N.of_nat (length s)) (N.of_nat k) = true).
+    { exact (proj1 (forest_entry H HO s k lo t (nth_error_In _ _ Ei))). }
+    destruct (forest_bit_entry H HO s k Hbit) as (lo' & t' & Ej). rewrite <- cc_tidx_p2 in Ej.
+    pose proof (cc_forest_rows_NoDup s) as Hnd.
+    assert (E1 : nth_error (map row (forest HO s)) i = Some k).
+    { rewrite nth_error_map, Ei. reflexivity. }
+    assert (E2 : nth_error (map row (forest HO s)) (cc_tidx s k) = Some k).
+    { rewrite nth_error_map, Ej. reflexivity. }
+    apply (proj1 (NoDup_nth_error _) Hnd i (cc_tidx s k)).
+    - apply nth_error_Some. rewrite E1. discriminate.
+    - rewrite E1, E2. reflexivity.
+  Qed.
+
+  Lemma cc_forest_at_tidx (s : slots H) k :
+    N.testbit (N.of_nat (length s)) (N.of_nat k) = true ->
+    exists lo t, nth_error (forest HO s) (cc_tidx s k) = Some (k, lo, t).
+  Proof.
+    intros Hbit. destruct (forest_bit_entry H HO s k Hbit) as (lo & t & E).
+    rewrite <- cc_tidx_p2 in E. exists lo, t. exact E.
+  Qed.
+End ForestRows.
+
+Lemma cc_child_offsets o :
+  (N.even o = true /\ 2 * (o / 2) = o /\ 2 * (o / 2) + 1 = N.lxor o 1) \/
+  (N.even o = false /\ 2 * (o / 2) + 1 = o /\ 2 * (o / 2) = N.lxor o 1).
+Proof.
+  destruct (pps_bit0 o) as [k [(E1 & E2 & _ & E4)|(E1 & E2 & _ & E4)]].
+  - left. rewrite E4, E2. split; [rewrite E1, N.even_mul; reflexivity|]. split; [lia|reflexivity].
+  - right. rewrite E4, E2. split; [|split; [lia|reflexivity]].
+    rewrite E1, N.add_comm, N.even_add_mul_2. reflexivity.
+Qed.
+
+Section DelComplete.
+  Variable H : Type.
+  Variable HO : ops H.
+  Hypothesis HOK : ops_ok HO.
+  Hypothesis hash_nz : forall a b, NZ HO (op_hash2 HO a b).
+  Variable s : slots H.
+  Hypothesis Hlive_nz : forall h, In (Some h) s -> NZ HO h.
+  Hypothesis Hlive_nd : NoDup (live s).
+  Hypothesis Hn63 : N.of_nat (length s) <= 2 ^ 63.
+
+  Local Notation n := (N.of_nat (length s)).
+  Local Notation total := (TreeRows (N.of_nat (length s))).
+  Local Notation R := (rows_of (num_leaves s)).
+  Local Notation lay := (layout HO s).
+  Local Notation g := (g total).
+  Local Notation hash2 := (op_hash2 HO).
+  Local Notation empty := (op_empty HO).
+  Local Notation nz := (NZ HO).
+
+  (** the deleted leaves and their nodes *)
+  Variable hs : list H.
+  Variable tsn : list (node H).
+  Hypothesis Hts_lay : forall x, In x tsn -> In x lay.
+  Hypothesis Hts_leaf : forall x, In x tsn -> nleaf x = true.
+  Hypothesis Hts_nd : NoDup tsn.
+  Hypothesis Hts_hs : map (@nhash H) tsn = hs.
+
+  Local Notation T := (map ncrd tsn).
+  Local Notation K := (cc_K n T).
+  Local Notation Ks := (cc_sortC n (cc_K n T)).
+  Local Notation rows := (map fst (filter (is_root_c n) Ks)).
+
+  (** [AD r o v]: the subtree below the node at [(r, o)] has the hash [v] once the leaves [hs]
+      are deleted ([None]: nothing survives) *)
+  Inductive AD : nat -> N -> option H -> Prop :=
+  | AD_leaf r o x : tnode HO s r o = Some x -> nleaf x = true ->
+      AD r o (if memH HO (nhash x) hs then None else Some (nhash x))
+  | AD_inner r' o x a b : tnode HO s (S r') o = Some x -> nleaf x = false ->
+      AD r' (2 * o) a -> AD r' (2 * o + 1) b -> AD (S r') o (ojoin HO a b).
+
+  Lemma dc_AD_nz r o v : AD r o v -> forall h, v = Some h -> nz h.
+  Proof.
+    induction 1 as [r o x Hx Hl|r' o x a b Hx Hl Ha IHa Hb IHb]; intros h E.
+    - destruct (memH HO (nhash x) hs); [discriminate|]. injection E as <-.
+      apply Hlive_nz. apply tnode_some in Hx. exact (layout_leaf_live H HO s x (proj1 Hx) Hl).
+    - destruct a as [ha|], b as [hb|]; cbn [ojoin] in E.
+      + injection E as <-. apply hash_nz.
+      + exact (IHa h E).
+      + exact (IHb h E).
+      + discriminate.
+  Qed.
+
+  Lemma dc_AD_fun r o v : AD r o v -> forall v', AD r o v' -> v = v'.
+  Proof.
+    induction 1 as [r o x Hx Hl|r' o x a b Hx Hl Ha IHa Hb IHb]; intros v' H'.
+    - inversion H' as [r0 o0 x' Hx' Hl' E1 E2 E3|r0 o0 x' a' b' Hx' Hl' Ha' Hb' E1 E2 E3]; subst.
+      + rewrite Hx in Hx'. injection Hx' as <-. reflexivity.
+      + rewrite Hx in Hx'. injection Hx' as <-. congruence.
+    - inversion H' as [r0 o0 x' Hx' Hl' E1 E2 E3|r0 o0 x' a' b' Hx' Hl' Ha' Hb' E1 E2 E3]; subst.
+      + rewrite Hx in Hx'. injection Hx' as <-. congruence.
+      + rewrite (IHa a' Ha'), (IHb b' Hb'). reflexivity.
+  Qed.
+
+  (** the valuation after the deletion *)
+  Definition Wd (p : N) (h : H) : Prop :=
+    exists x v, In x lay /\ p = g (ncrd x) /\ AD (nrow x) (noff x) v /\ h = ohash HO v.
+
+  Lemma dc_Wd_node x h : In x lay -> Wd (g (ncrd x)) h ->
+    exists v, AD (nrow x) (noff x) v /\ h = ohash HO v.
+  Proof.
+    intros Hx (y & v & Hy & Eg & Hv & Eh).
+    apply pps_g_inj in Eg; [|exact (rf_node_vld H HO s x Hx)|exact (rf_node_vld H HO s y Hy)].
+    apply (rf_ncrd_inj H HO s x y Hx Hy) in Eg. subst y. exists v. split; assumption.
+  Qed.
+
+  Lemma dc_eqb_empty : op_eqb HO empty empty = true.
+  Proof. apply HOK. reflexivity. Qed.
+
+  (** [getNextHash] realises [ojoin] *)
+  Lemma dc_next_ojoin p a b : (forall h, a = Some h -> nz h) -> (forall h, b = Some h -> nz h) ->
+    getNextHash HO p (ohash HO a) (ohash HO b) =
+    ohash HO (if isLeftNiece p then ojoin HO a b else ojoin HO b a).
+  Proof.
+    intros Ha Hb. unfold getNextHash. destruct a as [ha|]; cbn [ohash].
+    - rewrite (Ha ha eq_refl). destruct b as [hb|]; cbn [ohash].
+      + rewrite (Hb hb eq_refl). destruct (isLeftNiece p); reflexivity.
+      + rewrite dc_eqb_empty. destruct (isLeftNiece p); reflexivity.
+    - rewrite dc_eqb_empty. destruct b as [hb|]; destruct (isLeftNiece p); reflexivity.
+  Qed.
+
+  (** FORWARD STEP after the deletion *)
+  Lemma dc_step c h h' : inf n c -> is_root_c n c = false ->
+    Wd (g c) h -> Wd (g (sib c)) h' -> Wd (g (par c)) (getNextHash HO (g c) h h').
+  Proof.
+    intros Hinf Hroot (x & v & Hx & Eg & Hv & Eh) Hsib.
+    pose proof (rf_nle H s) as Hnle.
+    apply pps_g_inj in Eg; [|exact (pps_inf_vld n total Hnle c Hinf)|exact (rf_node_vld H HO s x Hx)].
+    subst c. pose proof (rf_nonroot H HO s x Hx Hroot) as Hnr.
+    destruct (node_sibling H HO s _ _ x (tnode_in H HO s x Hx) Hnr)
+      as (p & sb & Hp & Hsb & Hpl & _ & _ & _ & _).
+    pose proof Hp as Hp'. apply tnode_some in Hp'. destruct Hp' as (Hpin & Epr & Epo).
+    apply tnode_some in Hsb. destruct Hsb as (Hsb & Esr & Eso).
+    assert (Esb : ncrd sb = sib (ncrd x)).
+    { unfold ncrd, sib, cN. cbn [fst snd]. rewrite Esr, Eso. reflexivity. }
+    rewrite <- Esb in Hsib. destruct (dc_Wd_node sb h' Hsb Hsib) as (v' & Hv' & Eh').
+    rewrite Esr, Eso in Hv'.
+    subst h h'. rewrite (dc_next_ojoin _ v v' (dc_AD_nz _ _ _ Hv) (dc_AD_nz _ _ _ Hv')).
+    rewrite (cc_isLeft total (ncrd x) (proj1 (rf_node_vld H HO s x Hx))).
+    exists p. eexists. split; [exact Hpin|]. split; [|split; [|reflexivity]].
+    - f_equal. unfold ncrd. rewrite Epr, Epo. apply cN_par.
+    - rewrite Epr, Epo. unfold ncrd, cN. cbn [snd].
+      destruct (cc_child_offsets (noff x)) as [(Ee & E1 & E2)|(Ee & E1 & E2)]; rewrite Ee.
+      + apply (AD_inner _ _ p _ _ Hp Hpl); [rewrite E1; exact Hv|rewrite E2; exact Hv'].
+      + apply (AD_inner _ _ p _ _ Hp Hpl); [rewrite E2; exact Hv'|rewrite E1; exact Hv].
+  Qed.
+
+  Lemma dc_valid : pp_valid n total T = true.
+  Proof. exact (rt_valid H HO s tsn Hts_lay Hts_leaf Hts_nd). Qed.
+
+  (** a subtree without deleted leaves keeps its hash *)
+  Lemma dc_untouched : forall r o x, tnode HO s r o = Some x -> nroot x = false ->
+    ~ In (ncrd x) K -> AD r o (Some (nhash x)).
+  Proof.
+    destruct (cc_valid_facts n Hn63 T dc_valid) as (_ & HK2 & _).
+    induction r as [|r IH]; intros o x Hx Hnr HnK;
+      pose proof Hx as Hx'; apply tnode_some in Hx'; destruct Hx' as (Hxin & Exr & Exo).
+    - destruct (node_cases H HO s _ _ x Hx)
+        as [r' xl xr _ Er _ _ _ _ _ _ _|Hlf _ _|Hroot _ _ _ _ _]; [discriminate| |congruence].
+      pose proof (AD_leaf 0 o x Hx Hlf) as HA.
+      destruct (memH HO (nhash x) hs) eqn:Em; [exfalso|exact HA].
+      apply (SpecBasics.memH_In H HO HOK) in Em. rewrite <- Hts_hs in Em.
+      apply in_map_iff in Em. destruct Em as (z & Ez & Hz).
+      assert (x = z).
+      { apply (live_leaf_unique H HO s x z Hlive_nd Hxin (Hts_lay z Hz) Hlf (Hts_leaf z Hz)).
+        symmetry. exact Ez. }
+      subst z. apply HnK. unfold cc_K. apply in_or_app. left. apply in_map. exact Hz.
+    - destruct (node_cases H HO s _ _ x Hx)
+        as [r' xl xr Hl Er Hxl Hxr Hh _ _ Hlr Hrr|Hlf _ _|Hroot _ _ _ _ _]; [| |congruence].
+      + injection Er as <-.
+        assert (Hchild : forall y o', tnode HO s r o' = Some y -> nroot y = false ->
+                           o' / 2 = o -> ~ In (ncrd y) K).
+        { intros y o' Hy Hyr Eo Hin. apply HnK.
+          apply tnode_some in Hy. destruct Hy as (Hyin & Eyr & Eyo).
+          pose proof (HK2 (ncrd y) Hin (rf_root_true H HO s y Hyin Hyr)) as Hpar.
+          unfold ncrd in Hpar. rewrite Eyr, Eyo, cN_par, Eo in Hpar.
+          unfold cc_K. apply in_or_app. right. unfold ncrd. rewrite Exr, Exo. exact Hpar. }
+        pose proof (IH _ xl Hxl Hlr (Hchild xl _ Hxl Hlr (pps_div2_double o))) as Al.
+        pose proof (IH _ xr Hxr Hrr (Hchild xr _ Hxr Hrr (pps_div2_double1 o))) as Ar.
+        pose proof (AD_inner r o x _ _ Hx Hl Al Ar) as HA. cbn [ojoin] in HA.
+        rewrite Hh. exact HA.
+      + pose proof (AD_leaf (S r) o x Hx Hlf) as HA.
+        destruct (memH HO (nhash x) hs) eqn:Em; [exfalso|exact HA].
+        apply (SpecBasics.memH_In H HO HOK) in Em. rewrite <- Hts_hs in Em.
+        apply in_map_iff in Em. destruct Em as (z & Ez & Hz).
+        assert (x = z).
+        { apply (live_leaf_unique H HO s x z Hlive_nd Hxin (Hts_lay z Hz) Hlf (Hts_leaf z Hz)).
+          symmetry. exact Ez. }
+        subst z. apply HnK. unfold cc_K. apply in_or_app. left. apply in_map. exact Hz.
+  Qed.
+
+  (** the targets carry the empty hash *)
+  Lemma dc_targets_W : forall c, In c T -> Wd (g c) empty.
+  Proof.
+    intros c Hc. apply in_map_iff in Hc. destruct Hc as (x & <- & Hx).
+    exists x. eexists. split; [exact (Hts_lay x Hx)|]. split; [reflexivity|]. split.
+    - exact (AD_leaf _ _ x (tnode_in H HO s x (Hts_lay x Hx)) (Hts_leaf x Hx)).
+    - assert (Em : memH HO (nhash x) hs = true).
+      { apply (SpecBasics.memH_In H HO HOK). rewrite <- Hts_hs. apply in_map. exact Hx. }
+      rewrite Em. reflexivity.
+  Qed.
+
+  (** the canonical proof hashes are values after the deletion too *)
+  Lemma dc_proof_W :
+    Forall2 Wd (fst (ProofPositions (sortN (map g T)) n total)) (canon_proof_hashes HO R lay tsn).
+  Proof.
+    rewrite <- (rt_canon_pos H HO s Hn63 tsn Hts_lay Hts_leaf Hts_nd).
+    unfold canon_proof_pos, canon_proof_hashes. apply cc_Forall2_maps. apply Forall_forall.
+    intros e He. apply RefTheory.sort_coords_In in He. destruct He as (c & Hc & ->). cbn [fst snd].
+    apply RefTheory.proof_coords_In in Hc. destruct Hc as (d & Hd & Hr & Hns & ->).
+    destruct (rt_K_node H HO s tsn Hts_lay (cN d)) as (y & Hy & Ey).
+    { apply (rt_K H HO s Hn63 tsn Hts_lay). exists d. split; [exact Hd|reflexivity]. }
+    rewrite (rt_is_root_coord H HO s Hn63 tsn Hts_lay d Hd), <- Ey in Hr.
+    pose proof (rf_nonroot H HO s y Hy Hr) as Hnr.
+    destruct (node_sibling H HO s _ _ y (tnode_in H HO s y Hy) Hnr)
+      as (p & sb & _ & Hsb & _ & _ & _ & Hsbr & _).
+    apply cN_inj in Ey. subst d. unfold sib_coord in *. cbn [fst snd] in *.
+    change (find_coord lay (nrow y) (N.lxor (noff y) 1)) with (tnode HO s (nrow y) (N.lxor (noff y) 1)).
+    rewrite Hsb. pose proof Hsb as Hsb'. apply tnode_some in Hsb'. destruct Hsb' as (Hsbin & Esr & Eso).
+    exists sb, (Some (nhash sb)). split; [exact Hsbin|]. split; [|split; [|reflexivity]].
+    - rewrite (rf_pos_g H s). unfold ncrd. rewrite Esr, Eso. reflexivity.
+    - rewrite Esr, Eso. apply (dc_untouched _ _ sb Hsb Hsbr). intros Hin.
+      apply (rt_K H HO s Hn63 tsn Hts_lay) in Hin. destruct Hin as (d2 & Hd2 & E).
+      unfold ncrd in E. rewrite Esr, Eso in E. apply cN_inj in E. subst d2. exact (Hns Hd2).
+  Qed.
+
+  (** ** the deletion read on the compressed trees ([RefTheory.prune]) *)
+  Lemma dc_ojoin_join (A B : option (ctree H)) :
+    ojoin HO (option_map (@chash H) A) (option_map (@chash H) B) =
+    option_map (@chash H) (join HO A B).
+  Proof. destruct A as [a|], B as [b|]; reflexivity. Qed.
+
+  Lemma dc_AD_tree : forall (c : ctree H) r o b tr, cwf H HO c -> (cheight H c <= r)%nat ->
+    (forall x, In x (place_tree c r o b tr) -> In x lay) ->
+    AD r o (option_map (@chash H) (RefTheory.prune HO hs c)).
+  Proof.
+    induction c as [h|h l IHl rr IHr]; intros r o b tr Hwf Hh Hsub.
+    - cbn [place_tree] in Hsub.
+      assert (Hx : tnode HO s r o = Some (mkNode r o h true b tr)).
+      { apply tnode_iff. split; [apply Hsub; left; reflexivity|split; reflexivity]. }
+      pose proof (AD_leaf r o _ Hx eq_refl) as HA. cbn [nhash] in HA.
+      cbn [RefTheory.prune]. destruct (memH HO h hs); exact HA.
+    - cbn [cwf] in Hwf. destruct Hwf as (_ & Hwl & Hwr). cbn [cheight] in Hh.
+      destruct r as [|r']; [lia|]. cbn [place_tree] in Hsub.
+      assert (Hx : tnode HO s (S r') o = Some (mkNode (S r') o h false b tr)).
+      { apply tnode_iff. split; [apply Hsub; left; reflexivity|split; reflexivity]. }
+      assert (Al : AD r' (2 * o) (option_map (@chash H) (RefTheory.prune HO hs l))).
+      { apply (IHl r' (2 * o) false tr Hwl); [lia|]. intros x Hx'. apply Hsub. right.
+        apply in_or_app. left. exact Hx'. }
+      assert (Ar : AD r' (2 * o + 1) (option_map (@chash H) (RefTheory.prune HO hs rr))).
+      { apply (IHr r' (2 * o + 1) false tr Hwr); [lia|]. intros x Hx'. apply Hsub. right.
+        apply in_or_app. right. exact Hx'. }
+      pose proof (AD_inner r' o _ _ _ Hx eq_refl Al Ar) as HA.
+      rewrite dc_ojoin_join in HA. exact HA.
+  Qed.
+
+  Lemma dc_prune_id : forall c : ctree H, cwf H HO c ->
+    (forall h, In h (cleaves H c) -> memH HO h hs = false) -> RefTheory.prune HO hs c = Some c.
+  Proof.
+    induction c as [h|h l IHl rr IHr]; intros Hwf Hno.
+    - cbn [RefTheory.prune]. rewrite (Hno h (or_introl eq_refl)). reflexivity.
+    - cbn [cwf] in Hwf. destruct Hwf as (Eh & Hwl & Hwr). cbn [RefTheory.prune].
+      rewrite IHl, IHr; try assumption.
+      + cbn [join]. rewrite <- Eh. reflexivity.
+      + intros h' Hh'. apply Hno. cbn [cleaves]. apply in_or_app. right. exact Hh'.
+      + intros h' Hh'. apply Hno. cbn [cleaves]. apply in_or_app. left. exact Hh'.
+  Qed.
+
+  (** the reported rows are the rows of the trees that hold the targets ([vc_rows]) *)
+  Lemma dc_rows r : In r rows <-> exists x, In x tsn /\ r = N.of_nat (ntree x).
+  Proof. exact (vc_rows H HO s Hn63 tsn Hts_lay Hts_leaf Hts_nd r). Qed.
+
+  Lemma dc_entry_facts k lo t : In (k, lo, t) (forest HO s) ->
+    N.testbit n (N.of_nat k) = true /\
+    lo / 2 ^ N.of_nat k = 2 * (n / 2 ^ (N.of_nat k + 1)) /\
+    (forall x, In x (place_entry HO (k, lo, t)) -> In x lay) /\
+    (forall c, t = Some c -> cwf H HO c /\ (cheight H c <= k)%nat).
+  Proof.
+    intros Hin. destruct (root_node H HO s k lo t Hin) as (Hbit & _ & Ediv & _).
+    split; [exact Hbit|]. split; [exact Ediv|]. split.
+    - intros x Hx. exact (entry_layout H HO s _ x Hin Hx).
+    - intros c Ec. destruct (forest_entry H HO s k lo t Hin) as (_ & _ & _ & _ & _ & Et).
+      rewrite Ec in Et. exact (compress_wf H HO k _ c (eq_sym Et)).
+  Qed.
+
+  (** a tree of an involved row: the candidate after the deletion is its pruned root *)
+  Lemma dc_root_value k lo t m : In (k, lo, t) (forest HO s) -> In (N.of_nat k) rows ->
+    Wd (rootPosition n (N.of_nat k) total) m ->
+    m = root_hash HO (RefTheory.oprune HO hs t).
+  Proof.
+    intros Hin Hrow (y & v & Hy & Eg & Hv & ->).
+    destruct (dc_entry_facts k lo t Hin) as (Hbit & Ediv & Hsub & Hwf).
+    pose proof (rf_nle H s) as Hnle. pose proof (rf_t63 H s Hn63) as Ht63.
+    destruct (root_coord_valid n (N.of_nat k) total Hnle Hbit) as [Hr Hov].
+    rewrite rootPosition_gpos in Eg by assumption.
+    destruct t as [c|].
+    - destruct (Hwf c eq_refl) as [Hcwf Hch]. cbn [place_entry] in Hsub.
+      pose proof (dc_AD_tree c k (lo / 2 ^ N.of_nat k) true k Hcwf Hch Hsub) as HA.
+      destruct (place_tree_head H c k (lo / 2 ^ N.of_nat k) true k) as (tl & Epl).
+      assert (Hhd : In (head_node H c k (lo / 2 ^ N.of_nat k) true k) lay).
+      { apply Hsub. rewrite Epl. left. reflexivity. }
+      assert (Ecrd : ncrd (head_node H c k (lo / 2 ^ N.of_nat k) true k) =
+                     (N.of_nat k, 2 * (n / 2 ^ (N.of_nat k + 1)))).
+      { unfold ncrd, cN, head_node. cbn [nrow noff fst snd]. rewrite Ediv. reflexivity. }
+      change (UtilsGeom.gpos total (N.of_nat k) (2 * (n / 2 ^ (N.of_nat k + 1))))
+        with (g (N.of_nat k, 2 * (n / 2 ^ (N.of_nat k + 1)))) in Eg.
+      rewrite <- Ecrd in Eg.
+      apply pps_g_inj in Eg; [|exact (rf_node_vld H HO s _ Hhd)|exact (rf_node_vld H HO s y Hy)].
+      apply (rf_ncrd_inj H HO s _ y Hhd Hy) in Eg. subst y. cbn [head_node nrow noff] in Hv.
+      rewrite (dc_AD_fun _ _ _ Hv _ HA). cbn [RefTheory.oprune].
+      destruct (RefTheory.prune HO hs c); reflexivity.
+    - (* an empty tree holds no target *)
+      exfalso. apply dc_rows in Hrow. destruct Hrow as (x & Hx & Ex).
+      apply Nat2N.inj in Ex. subst k.
+      destruct (layout_node_tree H HO s x (Hts_lay x Hx)) as (lo' & t' & Hin' & Hxe & _).
+      destruct (forest_entry_unique H HO s _ _ _ _ _ Hin Hin') as [<- <-].
+      cbn [place_entry] in Hxe. destruct Hxe as [E|[]].
+      pose proof (Hts_leaf _ Hx) as Hl. rewrite <- E in Hl. cbn [nleaf] in Hl. discriminate.
+  Qed.
+
+  (** a tree without targets is not changed by the deletion *)
+  Lemma dc_root_untouched k lo t : In (k, lo, t) (forest HO s) -> ~ In (N.of_nat k) rows ->
+    RefTheory.oprune HO hs t = t.
+  Proof.
+    intros Hin Hrow. destruct t as [c|]; [|reflexivity]. cbn [RefTheory.oprune].
+    destruct (dc_entry_facts k lo (Some c) Hin) as (_ & _ & Hsub & Hwf).
+    destruct (Hwf c eq_refl) as [Hcwf Hch]. apply dc_prune_id; [exact Hcwf|].
+    intros h Hh. destruct (memH HO h hs) eqn:Em; [exfalso|reflexivity].
+    apply (SpecBasics.memH_In H HO HOK) in Em. rewrite <- Hts_hs in Em.
+    apply in_map_iff in Em. destruct Em as (z & Ez & Hz).
+    cbn [place_entry] in Hsub.
+    rewrite <- (place_tree_leaves H c k (lo / 2 ^ N.of_nat k) true k Hch) in Hh.
+    apply in_map_iff in Hh. destruct Hh as (y & Ey & Hy). apply filter_In in Hy.
+    destruct Hy as [Hy Hyl].
+    assert (y = z).
+    { apply (live_leaf_unique H HO s y z Hlive_nd (Hsub y Hy) (Hts_lay z Hz) Hyl (Hts_leaf z Hz)).
+      congruence. }
+    subst z. apply Hrow. apply dc_rows. exists y. split; [exact Hz|].
+    rewrite (place_tree_ntree H c _ _ _ _ y Hy). reflexivity.
+  Qed.
+
+  Lemma dc_row_bit r : In r rows -> N.testbit n r = true /\ r <= 63.
+  Proof.
+    intros Hr. apply in_map_iff in Hr. destruct Hr as (q & <- & Hq).
+    apply filter_In in Hq. destruct Hq as [_ Hq]. unfold is_root_c in Hq.
+    apply andb_true_iff in Hq. destruct Hq as [Hbit _]. split; [exact Hbit|].
+    pose proof (proj1 (root_coord_valid n (fst q) total (rf_nle H s) Hbit)).
+    pose proof (rf_t63 H s Hn63). lia.
+  Qed.
+
+  Lemma dc_rootIndex r : r <= 63 -> rootIndexForRow n r = cc_tidx H s (N.to_nat r).
+  Proof.
+    intros Hr. rewrite (cc_rootIndexForRow n r Hr). unfold cc_tidx. rewrite N2Nat.id. reflexivity.
+  Qed.
+
+  Lemma dc_tidx_inj k k' : N.testbit n (N.of_nat k) = true -> N.testbit n (N.of_nat k') = true ->
+    cc_tidx H s k = cc_tidx H s k' -> k = k'.
+  Proof.
+    intros Hb Hb' E.
+    destruct (cc_forest_at_tidx H HO s k Hb) as (lo & t & E1).
+    destruct (cc_forest_at_tidx H HO s k' Hb') as (lo' & t' & E2).
+    rewrite E in E1. rewrite E1 in E2. injection E2 as -> _ _. reflexivity.
+  Qed.
+
+  (** C-B on the target nodes *)
+  Theorem stump_del_refines_nodes :
+    exists inter,
+      stump_del HO true (the_stump (mk_ctx HO s)) hs (map (npos R) tsn)
+                (canon_proof_hashes HO R lay tsn)
+      = (mkStump (roots HO (kill HO hs s)) (num_leaves s), Ok inter).
+  Proof.
+    pose proof dc_valid as Hval.
+    destruct (cc_valid_facts n Hn63 T Hval) as (HK1 & _).
+    set (pf := canon_proof_hashes HO R lay tsn).
+    destruct (verify_complete_nodes H HO HOK hash_nz s Hlive_nz Hn63 tsn Hts_lay Hts_leaf Hts_nd)
+      as [Ev Hsorted].
+    rewrite Hts_hs in Ev. fold pf in Ev.
+    assert (Ets : map (npos R) tsn = map g T).
+    { rewrite map_map. apply map_ext. intros x. apply (rf_npos H s). }
+    destruct (calc_complete_c H HO Wd n Hn63 T None pf [] Hval)
+      as (inter & modified & Ecalc & _ & Hmod & _ & _).
+    { intros c h h' Hc Hr. exact (dc_step c h h' (HK1 c Hc) Hr). }
+    { cbn [cc_hs]. rewrite map_map. pose proof dc_targets_W as HW. revert HW.
+      generalize T. intros l HW. induction l as [|c l IH]; cbn [map]; constructor.
+      - apply HW. left. reflexivity.
+      - apply IH. intros c' Hc'. apply HW. right. exact Hc'. }
+    { exact dc_proof_W. }
+    rewrite app_nil_r in Ecalc.
+    exists inter. unfold stump_del. rewrite Ev. rewrite Ets.
+    unfold the_stump, mk_ctx. cbn [st_n st_roots croots cn]. unfold num_leaves.
+    rewrite Ecalc.
+    set (idxs := map (rootIndexForRow n) rows).
+    assert (Hlen : length idxs = length modified).
+    { unfold idxs. rewrite map_length. exact (cs_Forall2_length _ _ _ Hmod). }
+    rewrite <- Hlen, Nat.eqb_refl. cbn [negb].
+    assert (Hnd_rows : NoDup rows) by (apply cc_SSlt_NoDup; exact Hsorted).
+    assert (Hnd_idx : NoDup idxs).
+    { unfold idxs. apply RefTheory.NoDup_map_inj_on; [exact Hnd_rows|].
+      intros r r' Hr Hr' E. destruct (dc_row_bit r Hr) as [Hb H63].
+      destruct (dc_row_bit r' Hr') as [Hb' H63'].
+      rewrite (dc_rootIndex r H63), (dc_rootIndex r' H63') in E.
+      apply dc_tidx_inj in E; [lia|rewrite N2Nat.id; exact Hb|rewrite N2Nat.id; exact Hb']. }
+    assert (Hroots_len : length (roots HO s) = length (forest HO s)).
+    { unfold roots. apply map_length. }
+    assert (Hidx_lt : forall i, In i idxs -> (i < length (roots HO s))%nat).
+    { intros i Hi. unfold idxs in Hi. apply in_map_iff in Hi. destruct Hi as (r & <- & Hr).
+      destruct (dc_row_bit r Hr) as [Hb H63]. rewrite (dc_rootIndex r H63), Hroots_len.
+      destruct (cc_forest_at_tidx H HO s (N.to_nat r)) as (lo & t & E); [rewrite N2Nat.id; exact Hb|].
+      apply nth_error_Some. rewrite E. discriminate. }
+    destruct (cc_write_roots_spec H idxs modified (roots HO s) Hnd_idx Hlen Hidx_lt)
+      as (r' & Ew & Elen & Hset & Hother).
+    rewrite Ew. f_equal. f_equal.
+    apply cc_nth_error_ext. intros i.
+    unfold roots at 1. rewrite RefTheory.forest_kill, map_map, nth_error_map.
+    destruct (nth_error (forest HO s) i) as [[[k lo] t]|] eqn:Ei; cbn [option_map].
+    - pose proof (cc_forest_index H HO s i k lo t Ei) as Eik.
+      pose proof (nth_error_In _ _ Ei) as Hin.
+      destruct (dc_entry_facts k lo t Hin) as (Hbit & _).
+      unfold RefTheory.prune_entry. cbn [fst snd].
+      destruct (in_dec N.eq_dec (N.of_nat k) rows) as [Hrow|Hrow].
+      + destruct (In_nth_error _ _ Hrow) as (j & Ej).
+        destruct (dc_row_bit _ Hrow) as [_ H63].
+        assert (Eidx : nth_error idxs j = Some i).
+        { unfold idxs. rewrite nth_error_map, Ej. cbn [option_map].
+          rewrite (dc_rootIndex _ H63), Nat2N.id, Eik. reflexivity. }
+        assert (Hm : exists m, nth_error modified j = Some m /\
+                               Wd (rootPosition n (N.of_nat k) total) m).
+        { clear - Hmod Ej. revert j Ej. induction Hmod as [|r c l ms Hrc HF IH]; intros j Ej.
+          - destruct j; discriminate.
+          - destruct j as [|j]; cbn [nth_error] in Ej |- *.
+            + injection Ej as ->. exists c. split; [reflexivity|exact Hrc].
+            + exact (IH j Ej). }
+        destruct Hm as (m & Em & Hm).
+        rewrite (Hset j i m Eidx Em). f_equal.
+        exact (dc_root_value k lo t m Hin Hrow Hm).
+      + assert (Hni : ~ In i idxs).
+        { intros Hi. unfold idxs in Hi. apply in_map_iff in Hi. destruct Hi as (r & Er & Hr).
+          destruct (dc_row_bit r Hr) as [Hb H63]. rewrite (dc_rootIndex r H63), Eik in Er.
+          apply dc_tidx_inj in Er; [|rewrite N2Nat.id; exact Hb|exact Hbit].
+          apply Hrow. rewrite <- Er, N2Nat.id. exact Hr. }
+        rewrite (Hother i Hni). unfold roots. rewrite nth_error_map, Ei. cbn [option_map snd].
+        rewrite (dc_root_untouched k lo t Hin Hrow). reflexivity.
+    - apply nth_error_None. rewrite Elen, Hroots_len. apply nth_error_None. exact Ei.
+  Qed.
+End DelComplete.
+
+(** C-B.  [Stump.del] on the canonical proof of distinct live leaves of a forest without duplicate
+    leaves yields the roots of the reference forest after the deletion; the leaf count stays. *)
+Theorem stump_del_refines {H} (HO : ops H) (s : slots H) (hs : list H) (ts : list N) (pf : list H) :
+  ops_ok HO ->
+  (forall a b, NZ HO (op_hash2 HO a b)) ->
+  (forall h, In (Some h) s -> NZ HO h) ->
+  NoDup (live s) ->
+  N.of_nat (length s) <= 2 ^ 63 ->
+  NoDup hs ->
+  exp_prove HO (mk_ctx HO s) hs = Some (ts, pf) ->
+  exists st' inter,
+    stump_del HO true (the_stump (mk_ctx HO s)) hs ts pf = (st', Ok inter) /\
+    st_roots st' = roots HO (kill HO hs s) /\ st_n st' = num_leaves s.
+Proof.
+  intros HOK Hnz Hlive Hlnd Hn63 Hnd Ep. unfold exp_prove, mk_ctx in Ep. cbn [clay crows] in Ep.
+  destruct (find_leaves HO (layout HO s) hs) as [tsn|] eqn:Efl; [|discriminate].
+  injection Ep as <- <-.
+  destruct (cc_find_leaves_facts HO s hs tsn HOK Hnd Efl) as (Hlay & Hleaf & Hndt & Ehs & _).
+  destruct (stump_del_refines_nodes H HO HOK Hnz s Hlive Hlnd Hn63 hs tsn Hlay Hleaf Hndt Ehs)
+    as (inter & E).
+  eexists. exists inter. split; [exact E|]. split; reflexivity.
+Qed.
+
+
+(** * 12. The indexes reported by [Verify] are the oracle's [exp_root_indexes] *)
+
+Local Notation descN := (StronglySorted (fun a b : nat => (b < a)%nat)).
+
+Lemma cc_sorted_nth {A} (Rel : A -> A -> Prop) : forall l i j a b,
+  StronglySorted Rel l -> (i < j)%nat -> nth_error l i = Some a -> nth_error l j = Some b ->
+  Rel a b.
+Proof.
+  induction l as [|x l IH]; intros i j a b HS Hij Ha Hb; [destruct i; discriminate|].
+  destruct (cc_SS_cons_inv _ _ _ HS) as [HS' Hx].
+  destruct j as [|j]; [lia|]. cbn [nth_error] in Hb. destruct i as [|i]; cbn [nth_error] in Ha.
+  - injection Ha as <-. apply Hx. exact (nth_error_In _ _ Hb).
+  - apply (IH i j a b HS'); [lia|exact Ha|exact Hb].
+Qed.
+
+Lemma cc_desc_ext : forall l1 l2 : list nat, descN l1 -> descN l2 ->
+  (forall x, In x l1 <-> In x l2) -> l1 = l2.
+Proof.
+  induction l1 as [|x l1 IH]; intros l2 H1 H2 Hs.
+  - destruct l2 as [|y l2]; [reflexivity|]. exfalso. apply (Hs y). left. reflexivity.
+  - destruct l2 as [|y l2]; [exfalso; apply (Hs x); left; reflexivity|].
+    destruct (cc_SS_cons_inv _ _ _ H1) as [H1' Hx1]. destruct (cc_SS_cons_inv _ _ _ H2) as [H2' Hy2].
+    assert (Exy : x = y).
+    { destruct (proj1 (Hs x) (or_introl eq_refl)) as [E|Hin]; [symmetry; exact E|].
+      destruct (proj2 (Hs y) (or_introl eq_refl)) as [E|Hin']; [exact E|].
+      pose proof (Hy2 x Hin). pose proof (Hx1 y Hin'). lia. }
+    subst y. f_equal. apply IH; [exact H1'|exact H2'|].
+    intros z. split; intros Hz.
+    + destruct (proj1 (Hs z) (or_intror Hz)) as [E|Hin]; [|exact Hin].
+      subst z. pose proof (Hx1 x Hz). lia.
+    + destruct (proj2 (Hs z) (or_intror Hz)) as [E|Hin]; [|exact Hin].
+      subst z. pose proof (Hy2 x Hz). lia.
+Qed.
+
+Lemma cc_insert_desc_spec x : forall l, descN l ->
+  descN (insert_desc x l) /\ (forall y, In y (insert_desc x l) <-> y = x \/ In y l).
+Proof.
+  induction l as [|a l IH]; intros HS.
+  - cbn [insert_desc]. split; [repeat constructor|]. intros y. cbn [In]. intuition.
+  - destruct (cc_SS_cons_inv _ _ _ HS) as [HS' Ha]. cbn [insert_desc].
+    destruct (Nat.eqb_spec x a) as [->|Hne].
+    + split; [exact HS|]. intros y. cbn [In]. intuition.
+    + destruct (Nat.ltb_spec a x) as [Hlt|Hge].
+      * split.
+        -- constructor; [exact HS|]. apply Forall_forall. intros z [<-|Hz]; [exact Hlt|].
+           specialize (Ha z Hz). lia.
+        -- intros y. cbn [In]. intuition.
+      * destruct (IH HS') as [IH1 IH2]. split.
+        -- constructor; [exact IH1|]. apply Forall_forall. intros z Hz. apply IH2 in Hz.
+           destruct Hz as [->|Hz]; [lia|exact (Ha z Hz)].
+        -- intros y. cbn [In]. rewrite IH2. intuition.
+Qed.
+
+Section RootIndexes.
+  Variable H : Type.
+  Variable HO : ops H.
+  Local Notation row := (fun e : nat * N * option (ctree H) => fst (fst e)).
+
+  Lemma cc_index_of_tree : forall (f : list (nat * N * option (ctree H))) b j k lo t,
+    NoDup (map row f) -> nth_error f j = Some (k, lo, t) ->
+    index_of_tree k f b = Some (b + j)%nat.
+  Proof.
+    induction f as [|[[k' lo'] t'] f IH]; intros b j k lo t Hnd Ej; [destruct j; discriminate|].
+    cbn [map fst] in Hnd. inversion Hnd as [|r l Hnin Hnd']; subst.
+    destruct j as [|j]; cbn [nth_error] in Ej; cbn [index_of_tree].
+    - injection Ej as -> -> ->. rewrite Nat.eqb_refl. f_equal. lia.
+    - destruct (Nat.eqb_spec k k') as [->|_].
+      + exfalso. apply Hnin. apply in_map_iff. exists (k', lo, t). split; [reflexivity|].
+        exact (nth_error_In _ _ Ej).
+      + rewrite (IH (S b) j k lo t Hnd' Ej). f_equal. lia.
+  Qed.
+
+  Variable s : slots H.
+  Local Notation n := (N.of_nat (length s)).
+
+  (** the tree of row [k] has the index [cc_tidx s k], and lower rows have higher indexes *)
+  Lemma cc_tidx_index k : N.testbit n (N.of_nat k) = true ->
+    index_of_tree k (forest HO s) 0 = Some (cc_tidx H s k).
+  Proof.
+    intros Hbit. destruct (cc_forest_at_tidx H HO s k Hbit) as (lo & t & E).
+    exact (cc_index_of_tree _ 0%nat _ k lo t (cc_forest_rows_NoDup H HO s) E).
+  Qed.
+
+  Lemma cc_tidx_anti k k' : N.testbit n (N.of_nat k) = true -> N.testbit n (N.of_nat k') = true ->
+    (k < k')%nat -> (cc_tidx H s k' < cc_tidx H s k)%nat.
+  Proof.
+    intros Hb Hb' Hlt.
+    destruct (cc_forest_at_tidx H HO s k Hb) as (lo & t & E).
+    destruct (cc_forest_at_tidx H HO s k' Hb') as (lo' & t' & E').
+    destruct (cc_trees_rows_desc H HO (Nat.log2 (length s)) 0 s) as [HS _]. fold (forest HO s) in HS.
+    assert (E1 : nth_error (map row (forest HO s)) (cc_tidx H s k) = Some k)
+      by (rewrite nth_error_map, E; reflexivity).
+    assert (E2 : nth_error (map row (forest HO s)) (cc_tidx H s k') = Some k')
+      by (rewrite nth_error_map, E'; reflexivity).
+    destruct (Nat.lt_trichotomy (cc_tidx H s k') (cc_tidx H s k)) as [Hc|[Hc|Hc]]; [exact Hc| |].
+    - rewrite Hc in E2. rewrite E1 in E2. injection E2 as E2. lia.
+    - pose proof (cc_sorted_nth _ _ _ _ _ _ HS Hc E1 E2) as Hr. cbn beta in Hr. lia.
+  Qed.
+
+  (** the oracle's list of tree indexes of a list of nodes *)
+  Definition cc_fold_idx (ts : list (node H)) : list nat :=
+    fold_right (fun x acc => match index_of_tree (ntree x) (forest HO s) 0 with
+                             | Some i => insert_desc i acc | None => acc end) [] ts.
+
+  Lemma cc_fold_idx_spec (ts : list (node H)) :
+    (forall x, In x ts -> In x (layout HO s)) ->
+    descN (cc_fold_idx ts) /\
+    (forall i, In i (cc_fold_idx ts) <-> exists x, In x ts /\ i = cc_tidx H s (ntree x)).
+  Proof.
+    intros Hlay. induction ts as [|x ts IH]; cbn [cc_fold_idx fold_right].
+    - split; [constructor|]. intros i. split; [intros []|intros (x & [] & _)].
+    - destruct IH as [IH1 IH2]; [intros y Hy; apply Hlay; right; exact Hy|].
+      fold (cc_fold_idx ts).
+      assert (Hbit : N.testbit n (N.of_nat (ntree x)) = true).
+      { destruct (layout_node_tree H HO s x (Hlay x (or_introl eq_refl))) as (lo & t & Hin & _).
+        exact (proj1 (forest_entry H HO s _ lo t Hin)). }
+      rewrite (cc_tidx_index (ntree x) Hbit).
+      destruct (cc_insert_desc_spec (cc_tidx H s (ntree x)) (cc_fold_idx ts) IH1) as [I1 I2].
+      split; [exact I1|]. intros i. rewrite I2, IH2. split.
+      + intros [->|(y & Hy & ->)]; [exists x; split; [left; reflexivity|reflexivity]|].
+        exists y. split; [right; exact Hy|reflexivity].
+      + intros (y & [<-|Hy] & ->); [left; reflexivity|]. right. exists y. split; [exact Hy|reflexivity].
+  Qed.
+End RootIndexes.
+
+(** C-A with the indexes named: [Verify] returns exactly the oracle's expected root indexes *)
+Theorem verify_complete_indexes {H} (HO : ops H) (s : slots H) (hs : list H) (ts : list N)
+        (pf : list H) :
+  ops_ok HO ->
+  (forall a b, NZ HO (op_hash2 HO a b)) ->
+  (forall h, In (Some h) s -> NZ HO h) ->
+  N.of_nat (length s) <= 2 ^ 63 ->
+  NoDup hs ->
+  exp_prove HO (mk_ctx HO s) hs = Some (ts, pf) ->
+  exists idx,
+    Verify HO true (the_stump (mk_ctx HO s)) hs ts pf = Ok idx /\
+    exp_root_indexes HO (mk_ctx HO s) hs = Some idx.
+Proof.
+  intros HOK Hnz Hlive Hn63 Hnd Ep. unfold exp_prove, exp_root_indexes, mk_ctx in *.
+  cbn [clay crows cs] in *.
+  destruct (find_leaves HO (layout HO s) hs) as [tsn|] eqn:Efl; [|discriminate].
+  injection Ep as <- <-.
+  destruct (cc_find_leaves_facts HO s hs tsn HOK Hnd Efl) as (Hlay & Hleaf & Hndt & Ehs & _).
+  destruct (verify_complete_nodes H HO HOK Hnz s Hlive Hn63 tsn Hlay Hleaf Hndt) as [Ev Hs].
+  rewrite Ehs in Ev. eexists. split; [exact Ev|]. f_equal. fold (cc_fold_idx H HO s tsn).
+  destruct (cc_fold_idx_spec H HO s tsn Hlay) as [F1 F2].
+  set (rows := map fst (filter (is_root_c (N.of_nat (length s)))
+                 (cc_sortC (N.of_nat (length s)) (cc_K (N.of_nat (length s)) (map ncrd tsn))))) in *.
+  assert (Hrow : forall r, In r rows -> N.testbit (N.of_nat (length s)) r = true /\ r <= 63 /\
+                                        exists x, In x tsn /\ r = N.of_nat (ntree x)).
+  { intros r Hr. pose proof (proj1 (vc_rows H HO s Hn63 tsn Hlay Hleaf Hndt r) Hr) as Hx.
+    apply in_map_iff in Hr. destruct Hr as (q & <- & Hq).
+    apply filter_In in Hq. destruct Hq as [_ Hq]. unfold is_root_c in Hq.
+    apply andb_true_iff in Hq. destruct Hq as [Hbit _]. split; [exact Hbit|]. split; [|exact Hx].
+    pose proof (proj1 (root_coord_valid _ (fst q) _ (rf_nle H s) Hbit)).
+    pose proof (rf_t63 H s Hn63). lia. }
+  assert (Eidx : forall r, r <= 63 ->
+            rootIndexForRow (N.of_nat (length s)) r = cc_tidx H s (N.to_nat r)).
+  { intros r Hr. rewrite (cc_rootIndexForRow _ r Hr). unfold cc_tidx. rewrite N2Nat.id. reflexivity. }
+  apply cc_desc_ext; [exact F1| |].
+  - (* ascending rows give descending indexes *)
+    assert (Hdesc : forall l, StronglySorted N.lt l ->
+              (forall r, In r l -> N.testbit (N.of_nat (length s)) r = true /\ r <= 63) ->
+              descN (map (rootIndexForRow (N.of_nat (length s))) l)).
+    { intros l HS. induction HS as [|r l HS IH Hr]; intros Hl; [constructor|].
+      cbn [map]. constructor.
+      - apply IH. intros r' Hr'. apply Hl. right. exact Hr'.
+      - apply Forall_forall. intros i Hi. apply in_map_iff in Hi. destruct Hi as (r' & <- & Hr').
+        rewrite Forall_forall in Hr. specialize (Hr r' Hr').
+        destruct (Hl r (or_introl eq_refl)) as (Hb & H63).
+        destruct (Hl r' (or_intror Hr')) as (Hb' & H63').
+        rewrite (Eidx r H63), (Eidx r' H63').
+        apply (cc_tidx_anti H HO s (N.to_nat r) (N.to_nat r'));
+          [rewrite N2Nat.id; exact Hb|rewrite N2Nat.id; exact Hb'|lia]. }
+    apply Hdesc; [exact Hs|]. intros r Hr. destruct (Hrow r Hr) as (Hb & H63 & _). split; assumption.
+  - intros i. rewrite F2, in_map_iff. split.
+    + intros (x & Hx & ->). exists (N.of_nat (ntree x)).
+      assert (Hin : In (N.of_nat (ntree x)) rows).
+      { apply (vc_rows H HO s Hn63 tsn Hlay Hleaf Hndt). exists x. split; [exact Hx|reflexivity]. }
+      destruct (Hrow _ Hin) as (_ & H63 & _).
+      split; [rewrite (Eidx _ H63), Nat2N.id; reflexivity|exact Hin].
+    + intros (r & <- & Hr). destruct (Hrow r Hr) as (_ & H63 & x & Hx & ->).
+      exists x. split; [exact Hx|]. rewrite (Eidx _ H63), Nat2N.id. reflexivity.
+Qed.
+
+(** * 13. Non-vacuity (free hash algebra; [LayoutStruct.ls_ex] has dead slots, a leaf that moved
+    up and an empty root: slots [Atom 1; -; Atom 3; Atom 4; -; -; Atom 7]) *)
+
+Lemma ex_cc_hash_nz : forall a b : term, NZ term_ops (op_hash2 term_ops a b).
+Proof. intros a b. reflexivity. Qed.
+
+Lemma ex_cc_live_nz : forall h, In (Some h) ls_ex -> NZ term_ops h.
+Proof.
+  intros h Hin. unfold ls_ex in Hin. cbn [In] in Hin.
+  repeat (destruct Hin as [E|Hin]; [try discriminate E; injection E as <-; reflexivity|]).
+  destruct Hin.
+Qed.
+
+Lemma ex_cc_live_nodup : NoDup (live ls_ex).
+Proof.
+  change (live ls_ex) with [Atom 1; Atom 3; Atom 4; Atom 7].
+  repeat constructor; cbn [In]; intros Hin;
+    repeat (destruct Hin as [E|Hin]; [discriminate E|]); destruct Hin.
+Qed.
+
+Lemma ex_cc_bound : N.of_nat (length ls_ex) <= 2 ^ 63.
+Proof. vm_compute. discriminate. Qed.
+
+Lemma ex_cc_nodup : NoDup [Atom 7; Atom 3].
+Proof.
+  repeat constructor; cbn [In]; intros Hin;
+    repeat (destruct Hin as [E|Hin]; [discriminate E|]); destruct Hin.
+Qed.
+
+Example ex_cc_prove :
+  exp_prove term_ops (mk_ctx term_ops ls_ex) [Atom 7; Atom 3] = Some ([6; 2], [Atom 4; Atom 1]).
+Proof. vm_compute. reflexivity. Qed.
+
+(** C-A applied (not computed): the hypotheses are satisfiable ... *)
+Example ex_cc_verify_by_theorem :
+  exists idx,
+    Verify term_ops true (the_stump (mk_ctx term_ops ls_ex)) [Atom 7; Atom 3] [6; 2]
+           [Atom 4; Atom 1] = Ok idx /\
+    exp_root_indexes term_ops (mk_ctx term_ops ls_ex) [Atom 7; Atom 3] = Some idx.
+Proof.
+  exact (verify_complete_indexes term_ops ls_ex [Atom 7; Atom 3] [6; 2] [Atom 4; Atom 1]
+           term_ops_ok ex_cc_hash_nz ex_cc_live_nz ex_cc_bound ex_cc_nodup ex_cc_prove).
+Qed.
+
+(** ... and the conclusion agrees with the computation *)
+Example ex_cc_verify_computed :
+  Verify term_ops true (the_stump (mk_ctx term_ops ls_ex)) [Atom 7; Atom 3] [6; 2]
+         [Atom 4; Atom 1] = Ok [2%nat; 0%nat] /\
+  exp_root_indexes term_ops (mk_ctx term_ops ls_ex) [Atom 7; Atom 3] = Some [2%nat; 0%nat].
+Proof. vm_compute. split; reflexivity. Qed.
+
+(** C-B applied, and the computed result *)
+Example ex_cc_del_by_theorem :
+  exists st' inter,
+    stump_del term_ops true (the_stump (mk_ctx term_ops ls_ex)) [Atom 7; Atom 3] [6; 2]
+              [Atom 4; Atom 1] = (st', Ok inter) /\
+    st_roots st' = roots term_ops (kill term_ops [Atom 7; Atom 3] ls_ex) /\
+    st_n st' = num_leaves ls_ex.
+Proof.
+  exact (stump_del_refines term_ops ls_ex [Atom 7; Atom 3] [6; 2] [Atom 4; Atom 1]
+           term_ops_ok ex_cc_hash_nz ex_cc_live_nz ex_cc_live_nodup ex_cc_bound ex_cc_nodup
+           ex_cc_prove).
+Qed.
+
+Example ex_cc_del_computed :
+  stump_del term_ops true (the_stump (mk_ctx term_ops ls_ex)) [Atom 7; Atom 3] [6; 2]
+            [Atom 4; Atom 1]
+  = (mkStump [Node (Atom 1) (Atom 4); Zero; Zero] 7,
+     Ok [(2, Zero); (6, Zero); (9, Atom 4); (12, Node (Atom 1) (Atom 4))]) /\
+  roots term_ops (kill term_ops [Atom 7; Atom 3] ls_ex) = [Node (Atom 1) (Atom 4); Zero; Zero].
+Proof. vm_compute. split; reflexivity. Qed.
+
+(** [calculateHashes] ignores trailing proof hashes, as [calc_complete] states ([extra]) *)
+Example ex_cc_extra :
+  calculateHashes term_ops true 7 (Some [Atom 6; Atom 0; Atom 5]) [6; 0; 5]
+                  ([Atom 1; Atom 4; Node (Atom 2) (Atom 3)] ++ [Atom 99; Zero])
+  = Ok ([(0, Atom 0); (5, Atom 5); (6, Atom 6);
+         (8, Node (Atom 0) (Atom 1)); (10, Node (Atom 4) (Atom 5));
+         (12, Node (Node (Atom 0) (Atom 1)) (Node (Atom 2) (Atom 3)))],
+        [Atom 6; Node (Atom 4) (Atom 5);
+         Node (Node (Atom 0) (Atom 1)) (Node (Atom 2) (Atom 3))],
+        [0; 1; 2]).
+Proof. vm_compute. reflexivity. Qed.
+
+(** the theorem on that run with the trivial valuation: validity of the targets and the canonical
+    proof positions are computed, the shape of the result is concluded *)
+Example ex_cc_theorem_instance :
+  cc_result term (fun _ _ => True) 7 [(0, 6); (0, 0); (0, 5)]
+    (calculateHashes term_ops true 7 (Some [Atom 6; Atom 0; Atom 5])
+       (map (g (TreeRows 7)) [(0, 6); (0, 0); (0, 5)])
+       ([Atom 1; Atom 4; Node (Atom 2) (Atom 3)] ++ [Atom 99; Zero])).
+Proof.
+  apply (calc_complete term term_ops (fun _ _ => True) 7).
+  - vm_compute. discriminate.
+  - intros; exact I.
+  - vm_compute. reflexivity.
+  - repeat constructor.
+  - vm_compute. repeat constructor.
+Qed.
+
 Print Assumptions calc_complete_holds.
+Print Assumptions calc_complete_functional.
+Print Assumptions verify_complete.
+Print Assumptions verify_complete_indexes.
+Print Assumptions stump_del_refines.
+Print Assumptions ex_cc_verify_by_theorem.
+Print Assumptions ex_cc_del_by_theorem.
